@@ -76,6 +76,18 @@ Proof.
   - destruct H as [<-|H]; [right; left; reflexivity|].
     destruct (IH (y :: seen) x H) as [[<-|K]|K]; [right; left; reflexivity | left; exact K | right; right; exact K].
 Qed.
+Lemma remove_first_incl : forall o l, incl (remove_first o l) l.
+Proof.
+  intros o l. induction l as [|x l IH]; simpl; [apply incl_refl|].
+  destruct (Nat.eqb x o); [apply incl_tl, incl_refl|]. intros y [<-|Hy]; [left; reflexivity | right; apply IH; exact Hy].
+Qed.
+Lemma remove_first_other : forall o l x, x <> o -> In x l -> In x (remove_first o l).
+Proof.
+  intros o l x N. induction l as [|y l IH]; simpl; [auto|]. intros [<-|H].
+  - destruct (Nat.eqb y o) eqn:E; [apply Nat.eqb_eq in E; contradiction | left; reflexivity].
+  - destruct (Nat.eqb y o); [exact H | right; apply IH; exact H].
+Qed.
+
 Lemma upd_same : forall A (f : oid -> A) o v, upd f o v o = v.
 Proof. intros. unfold upd. rewrite Nat.eqb_refl. reflexivity. Qed.
 Lemma upd_other : forall A (f : oid -> A) o v x, x <> o -> upd f o v x = f x.
@@ -236,6 +248,13 @@ Qed.
 Lemma link_all_frameG : forall l g k, frameG g (link_all g k l).
 Proof. intros l g k. destruct (link_all_spec l g k) as (A & B & C & D & E). repeat split; auto. Qed.
 
+Lemma LinksAll_same_lk : forall g g', same_lk g g' -> LinksAll g -> LinksAll g'.
+Proof. intros g g' H. apply LinksAll_grows. apply same_lk_grows. exact H. Qed.
+Lemma link_if_same_lk : forall g k l, same_lk g (link_if g k l).
+Proof. intros g k l. unfold link_if. destruct (clinked g k); [apply link_all_same_lk | apply same_lk_refl]. Qed.
+Lemma cellf_only_same_lk : forall g g', (forall c, cellf g' c = cellf g c) -> same_lk g g'.
+Proof. intros g g' H c. rewrite H. split; reflexivity. Qed.
+
 (* ================================================================ adding dividers to a cell *)
 Definition add_lst (isc : bool) (r : cellr) (o : oid) : cellr :=
   if isc then cr_lists r (c_surfs r) (c_comps r ++ [o]) else cr_lists r (c_surfs r ++ [o]) (c_comps r).
@@ -339,32 +358,33 @@ Proof.
   - inversion H; subst. split; [apply grows_refl|]. split; [apply frameG_refl|]. intros _ c Hc. discriminate.
 Qed.
 
-Lemma add_children_all_spec : forall cps g other g' b,
-  add_children_all g cps other = (g', b) ->
-  grows g g' /\ frameG g g' /\
-  (b = true -> forall c, In (Some c) cps -> forall isc, incl (leaves isc other) (lst isc (cellf g' c))).
+Lemma add_children_refused : forall g cp other g', add_children g cp other = (g', false) -> g' = g.
 Proof.
-  induction cps as [|cp cps IH]; intros g other g' b H; simpl in H.
-  - inversion H; subst. split; [apply grows_refl|]. split; [apply frameG_refl|]. intros _ c [].
-  - destruct (add_children g cp other) as [g1 b1] eqn:E. apply add_children_spec in E.
-    destruct E as (G1 & F1 & I1). destruct b1.
-    + apply IH in H. destruct H as (G2 & F2 & I2). split; [eapply grows_trans; eauto|].
-      split; [eapply frameG_trans; eauto|]. intros Hb c [Hc|Hc] isc.
-      * destruct (G2 c) as [_ Inc]. eapply incl_tran; [apply (I1 eq_refl c Hc) | apply Inc].
-      * apply I2; assumption.
-    + inversion H; subst. split; [exact G1|]. split; [exact F1|]. discriminate.
+  intros g cp other g' H. unfold add_children in H. destruct cp as [c|]; [|discriminate].
+  destruct (cell_new g c true (leaves_cell other)); [|inversion H; reflexivity].
+  destruct (cell_new g c false (leaves_surf other)); [discriminate | inversion H; reflexivity].
 Qed.
 
-Lemma link_geometry_spec : forall g c t g' t' b,
-  link_geometry g c t = (g', t', b) ->
-  grows g g' /\ frameG g g' /\ (forall isc, leaves isc t' = leaves isc t) /\
-  (b = true -> forall isc, incl (leaves isc t) (lst isc (cellf g' c))).
+(* nothing new: the cell cannot refuse *)
+Lemma cell_new_present : forall g c isc l,
+  incl l (lst isc (cellf g c)) -> cell_new g c isc l = Some [].
 Proof.
-  intros g c t g' t' b H. unfold link_geometry in H.
-  destruct (add_children g (Some c) t) as [g1 ok] eqn:E. inversion H; subst.
-  apply add_children_spec in E. destruct E as (G & F & I). split; [exact G|]. split; [exact F|]. split.
-  - intro isc. destruct b; [apply leaves_set_cp | reflexivity].
-  - intros Hb isc. apply (I Hb c eq_refl).
+  intros g c isc l H. unfold cell_new.
+  change (if isc then c_comps (cellf g c) else c_surfs (cellf g c)) with (lst isc (cellf g c)).
+  assert (E : filter (fun o => negb (mem_o o (lst isc (cellf g c)))) l = []).
+  { induction l as [|x l IH]; [reflexivity|]. simpl.
+    assert (M : mem_o x (lst isc (cellf g c)) = true) by (apply mem_o_In; apply H; left; reflexivity).
+    rewrite M. simpl. apply IH. intros y Hy. apply H. right. exact Hy. }
+  rewrite E. reflexivity.
+Qed.
+
+Lemma add_children_present : forall g c other,
+  (forall isc, incl (leaves isc other) (lst isc (cellf g c))) ->
+  snd (add_children g (Some c) other) = true.
+Proof.
+  intros g c other H. unfold add_children.
+  rewrite (cell_new_present g c true (leaves_cell other) (H true)).
+  rewrite (cell_new_present g c false (leaves_surf other) (H false)). reflexivity.
 Qed.
 
 (* ================================================================ geometry trees *)
@@ -393,182 +413,278 @@ Proof.
       * apply in_or_app; left; apply in_or_app; right; assumption.
 Qed.
 
-Lemma iop_leaves : forall o self other t1 is_self adds isc,
-  iop o self other = (t1, is_self, adds) ->
-  incl (leaves isc t1) (leaves isc self ++ leaves isc other).
-Proof.
-  intros o self. induction self as [b dv cp|l IHl cp|o' l IHl r IHr cp]; intros other t1 is_self adds isc H; simpl in H.
-  - inversion H; subst. simpl. apply incl_refl.
-  - inversion H; subst. simpl. apply incl_refl.
-  - destruct r as [rb rd rcp|rl rcp|ro rl rr rcp].
-    + inversion H; subst. simpl. rewrite <- app_assoc. apply incl_refl.
-    + destruct (iop o (Un rl rcp) other) as [[r' x] adds'] eqn:E. inversion H; subst.
-      specialize (IHr _ _ _ _ isc E). simpl in *. rewrite <- app_assoc.
-      apply incl_app; [apply incl_appl, incl_refl | apply incl_appr; exact IHr].
-    + destruct (iop o (Bin ro rl rr rcp) other) as [[r' x] adds'] eqn:E. inversion H; subst.
-      specialize (IHr _ _ _ _ isc E). simpl in *. rewrite <- app_assoc.
-      apply incl_app; [apply incl_appl, incl_refl | apply incl_appr; exact IHr].
-Qed.
-
-(* ================================================================ Links is preserved, operation by operation *)
-Lemma set_geom_cell_ok : forall g c t,
-  LinksAll g -> (forall isc, incl (leaves isc t) (lst isc (cellf g c))) ->
-  LinksAll (set_cell g c (cr_geom (cellf g c) (Some t))).
-Proof.
-  intros g c t L I x. destruct (Nat.eq_dec x c) as [->|N].
-  - rewrite cellf_set_cell_same. intros h Hh isc. simpl in Hh. inversion Hh; subst h.
-    destruct isc; simpl; [apply (I true) | apply (I false)].
-  - rewrite cellf_set_cell_other by exact N. apply L.
-Qed.
-
-Lemma set_geom_links : forall g c e, LinksAll g -> LinksAll (fst (set_geom g c e)).
-Proof.
-  intros g c e L. unfold set_geom. destruct (Nat.ltb 1 (uses_old e)); [exact L|].
-  destruct (eval_ex _ e) as [t|]; [|exact L].
-  destruct (link_geometry g c t) as [[g1 t'] ok] eqn:E. apply link_geometry_spec in E.
-  destruct E as (G & F & Lv & I). pose proof (LinksAll_grows _ _ G L) as L1. destruct ok; simpl; [|exact L1].
-  apply set_geom_cell_ok; [exact L1|]. intro isc. rewrite Lv. apply I. reflexivity.
-Qed.
-
-Lemma iop_set_links : forall g c o e,
-  LinksAll g -> is_conflict (snd (iop_set g c o e)) = false -> LinksAll (fst (iop_set g c o e)).
-Proof.
-  intros g c o e L. unfold iop_set. destruct (fresh_ex e) as [other|]; [|intros _; exact L].
-  destruct (c_geom (cellf g c)) as [t|]; [|intros _; exact L].
-  destruct (iop o t other) as [[t1 is_self] adds].
-  destruct (add_children_all g adds other) as [g1 b] eqn:E1. apply add_children_all_spec in E1.
-  destruct E1 as (G1 & F1 & I1). pose proof (LinksAll_grows _ _ G1 L) as L1.
-  destruct b; [|simpl; discriminate].
-  destruct (link_geometry g1 c t1) as [[g2 t2] ok] eqn:E2. apply link_geometry_spec in E2.
-  destruct E2 as (G2 & F2 & Lv & I2). pose proof (LinksAll_grows _ _ G2 L1) as L2.
-  destruct ok; simpl.
-  - intros _. apply set_geom_cell_ok; [exact L2|]. intro isc. rewrite Lv. apply I2. reflexivity.
-  - destruct is_self; simpl; [discriminate|]. intros _. exact L2.
-Qed.
-
-Lemma existsb_opt_is : forall adds c, existsb (fun x => opt_is x c) adds = true -> In (Some c) adds.
-Proof.
-  intros adds c H. apply existsb_exists in H. destruct H as [x [Hx Ho]]. apply opt_is_true in Ho. subst. exact Hx.
-Qed.
-
-Lemma iop_in_links : forall g c p o e,
-  LinksAll g -> is_conflict (snd (iop_in g c p o e)) = false -> iop_linked g c p o e false = true ->
-  LinksAll (fst (iop_in g c p o e)).
-Proof.
-  intros g c p o e L. unfold iop_in, iop_linked. destruct (fresh_ex e) as [other|]; [|intros _ _; exact L].
-  destruct (c_geom (cellf g c)) as [t|] eqn:Eg; [|intros _ _; exact L].
-  destruct (node_at t p) as [sub|] eqn:En; [|intros _ _; exact L].
-  destruct (iop o sub other) as [[sub1 is_self] adds] eqn:Ei.
-  destruct (add_children_all g adds other) as [g1 b] eqn:E1. apply add_children_all_spec in E1.
-  destruct E1 as (G1 & F1 & I1). pose proof (LinksAll_grows _ _ G1 L) as L1.
-  destruct b; [|simpl; discriminate]. simpl. intros _ Hl.
-  apply set_geom_cell_ok; [exact L1|]. intro isc.
-  assert (Ht : incl (leaves isc t) (lst isc (cellf g1 c))).
-  { destruct (G1 c) as [_ Inc]. eapply incl_tran; [apply (L c t Eg isc) | apply Inc]. }
-  destruct is_self; [|exact Ht]. simpl in Hl. apply existsb_opt_is in Hl.
-  eapply incl_tran; [apply replace_at_leaves|]. apply incl_app; [exact Ht|].
-  eapply incl_tran; [eapply iop_leaves; exact Ei|]. apply incl_app.
-  - eapply incl_tran; [eapply node_at_leaves; exact En | exact Ht].
-  - apply (I1 eq_refl c Hl).
-Qed.
-
-Lemma iop_child_links : forall g c p s o e,
-  LinksAll g -> is_conflict (snd (iop_child g c p s o e)) = false -> iop_linked g c (p ++ [s]) o e true = true ->
-  LinksAll (fst (iop_child g c p s o e)).
-Proof.
-  intros g c p s o e L. unfold iop_child, iop_linked. destruct (fresh_ex e) as [other|]; [|intros _ _; exact L].
-  destruct (c_geom (cellf g c)) as [t|] eqn:Eg; [|intros _ _; exact L].
-  destruct (node_at t (p ++ [s])) as [sub|] eqn:En; [|intros _ _; exact L].
-  destruct (iop o sub other) as [[sub1 is_self] adds] eqn:Ei.
-  destruct (add_children_all g adds other) as [g1 b] eqn:E1. apply add_children_all_spec in E1.
-  destruct E1 as (G1 & F1 & I1). pose proof (LinksAll_grows _ _ G1 L) as L1.
-  destruct b; [|simpl; discriminate]. simpl. intros _ Hl.
-  apply set_geom_cell_ok; [exact L1|]. intro isc.
-  assert (Ht : incl (leaves isc t) (lst isc (cellf g1 c))).
-  { destruct (G1 c) as [_ Inc]. eapply incl_tran; [apply (L c t Eg isc) | apply Inc]. }
-  apply existsb_opt_is in Hl.
-  eapply incl_tran; [apply replace_at_leaves|]. apply incl_app; [exact Ht|].
-  eapply incl_tran; [eapply iop_leaves; exact Ei|]. apply incl_app.
-  - eapply incl_tran; [eapply node_at_leaves; exact En | exact Ht].
-  - apply (I1 eq_refl c Hl).
-Qed.
-
-Lemma set_div_links : forall g c p isc d,
-  LinksAll g -> is_conflict (snd (set_div g c p isc d)) = false -> div_linked g c p isc = true ->
-  LinksAll (fst (set_div g c p isc d)).
-Proof.
-  intros g c p isc d L. unfold set_div, div_linked.
-  destruct (c_geom (cellf g c)) as [t|] eqn:Eg; [|intros _ _; exact L].
-  destruct (node_at t p) as [[b dv cp|l cp|o l r cp]|] eqn:En; try (intros _ _; exact L).
-  destruct (Bool.eqb b isc) eqn:Eb; simpl negb; cbv iota; [|intros _ _; exact L].
-  apply Bool.eqb_prop in Eb. subst b.
-  destruct cp as [c'|]; [|intros _ Hl; simpl in Hl; discriminate].
-  destruct (cell_add g c' isc d) as [g2 b] eqn:E. apply cell_add_spec in E. destruct E as (G & F & I).
-  destruct b; [|simpl; discriminate]. simpl. intros _ Hl. apply Nat.eqb_eq in Hl. subst c'.
-  apply set_geom_cell_ok; [eapply LinksAll_grows; eauto|]. intro isc'.
-  eapply incl_tran; [apply replace_at_leaves|]. apply incl_app.
-  - destruct (G c) as [_ Inc]. eapply incl_tran; [apply (L c t Eg isc') | apply Inc].
-  - simpl. destruct (Bool.eqb isc isc') eqn:Eb; [|intros y []].
-    apply Bool.eqb_prop in Eb. subst isc'. intros y [<-|[]]. apply I. reflexivity.
-Qed.
-
-(* operations that do not touch geometry or lists *)
-Lemma LinksAll_same_lk : forall g g', same_lk g g' -> LinksAll g -> LinksAll g'.
-Proof. intros g g' H. apply LinksAll_grows. apply same_lk_grows. exact H. Qed.
-
-Lemma link_if_same_lk : forall g k l, same_lk g (link_if g k l).
-Proof. intros g k l. unfold link_if. destruct (clinked g k); [apply link_all_same_lk | apply same_lk_refl]. Qed.
-
-Lemma cellf_only_same_lk : forall g g', (forall c, cellf g' c = cellf g c) -> same_lk g g'.
-Proof. intros g g' H c. rewrite H. split; reflexivity. Qed.
-
-Lemma add_children_to_problem_cellf : forall g c, cellf (fst (add_children_to_problem g)) c = cellf g c.
-Proof.
-  intros g c. unfold add_children_to_problem.
-  repeat match goal with |- context [if ?b then _ else _] => destruct b end; reflexivity.
-Qed.
-
-Lemma step_other_same_lk : forall g o,
-  match o with
-  | SetGeom _ _ | IopSet _ _ _ | IopIn _ _ _ _ | IopChild _ _ _ _ _ | SetDiv _ _ _ _ | Dedup _ | Relink => True
-  | _ => same_lk g (fst (step g o))
+(* ---- which cell the nodes of a tree point at *)
+(* every node of the tree points at cell c *)
+Fixpoint owned (c : oid) (h : hs) : Prop :=
+  match h with
+  | Leaf _ _ cp => cp = Some c
+  | Un l cp => cp = Some c /\ owned c l
+  | Bin _ l r cp => cp = Some c /\ owned c l /\ owned c r
   end.
+(* a tree built from pieces of cell c's geometry and from fresh nodes *)
+Fixpoint wm (c : oid) (h : hs) : Prop :=
+  match h with
+  | Leaf _ _ cp => cp = None \/ cp = Some c
+  | Un l cp => (cp = Some c /\ owned c l) \/ (cp = None /\ wm c l)
+  | Bin _ l r cp => (cp = Some c /\ owned c l /\ owned c r) \/ (cp = None /\ wm c l /\ wm c r)
+  end.
+Definition kids_wm (c : oid) (h : hs) : Prop :=
+  match h with
+  | Leaf _ _ _ => True
+  | Un l _ => wm c l
+  | Bin _ l r _ => wm c l /\ wm c r
+  end.
+(* no node of the tree belongs to a cell (an expression of fresh leaves) *)
+Fixpoint orphan (h : hs) : Prop :=
+  match h with
+  | Leaf _ _ cp => cp = None
+  | Un l cp => cp = None /\ orphan l
+  | Bin _ l r cp => cp = None /\ orphan l /\ orphan r
+  end.
+(* every node of every cell's geometry points at that cell *)
+Definition Owned (g : st) : Prop := forall c h, c_geom (cellf g c) = Some h -> owned c h.
+
+Lemma owned_cp : forall c h, owned c h -> get_cp h = Some c.
+Proof. intros c [b d cp|l cp|o l r cp]; simpl; intro H; [exact H | apply H | apply H]. Qed.
+Lemma owned_wm : forall c h, owned c h -> wm c h.
 Proof.
-  intros g o. destruct o; try exact I; cbn [step fst].
-  - apply set_cell_same_lk. repeat split; reflexivity.
-  - apply set_cell_same_lk. repeat split; reflexivity.
-  - apply set_cell_same_lk. repeat split; reflexivity.
-  - apply set_cell_same_lk. repeat split; reflexivity.
-  - apply cellf_only_same_lk. reflexivity.
-  - unfold set_number. destruct (n <=? 0)%Z; [apply same_lk_refl|].
-    destruct (andb _ _); [apply same_lk_refl | apply cellf_only_same_lk; reflexivity].
-  - unfold append. destruct (mem_Z _ _); [apply same_lk_refl|]. simpl.
-    eapply same_lk_trans; [|apply link_if_same_lk]. apply cellf_only_same_lk. reflexivity.
-  - unfold remove. destruct (mem_o _ _); [apply cellf_only_same_lk; reflexivity | apply same_lk_refl].
-  - unfold extend. destruct (clash _ _ _ _); [apply same_lk_refl|]. simpl.
-    eapply same_lk_trans; [|apply link_if_same_lk]. apply cellf_only_same_lk. reflexivity.
-  - unfold extend. destruct (clash _ _ _ _); [apply same_lk_refl|]. simpl.
-    eapply same_lk_trans; [|apply link_if_same_lk]. apply cellf_only_same_lk. reflexivity.
-  - apply cellf_only_same_lk. apply add_children_to_problem_cellf.
+  intros c h. induction h as [b d cp|l IHl cp|o l IHl r IHr cp]; simpl; intro H.
+  - right. exact H.
+  - left. exact H.
+  - left. exact H.
+Qed.
+Lemma orphan_wm : forall c h, orphan h -> wm c h.
+Proof.
+  intros c h. induction h as [b d cp|l IHl cp|o l IHl r IHr cp]; simpl; intro H.
+  - left. exact H.
+  - right. destruct H. auto.
+  - right. destruct H as (A & B & C). auto.
+Qed.
+Lemma wm_kids : forall c h, wm c h -> kids_wm c h.
+Proof.
+  intros c [b d cp|l cp|o l r cp]; simpl; intro H; [exact I| |].
+  - destruct H as [[_ H]|[_ H]]; [apply owned_wm; exact H | exact H].
+  - destruct H as [(_ & A & B)|(_ & A & B)]; [split; apply owned_wm; assumption | auto].
 Qed.
 
-Lemma step_links : forall g o, LinksAll g -> links_safe g o = true -> LinksAll (fst (step g o)).
+Lemma link_false_owned : forall c h, wm c h -> owned c (link_tree false c h).
 Proof.
-  intros g o L S. pose proof (step_other_same_lk g o) as K.
-  destruct o; try (eapply LinksAll_same_lk; [exact K | exact L]); cbn [links_safe step] in *.
-  - apply set_geom_links. exact L.
-  - apply iop_set_links; [exact L|]. apply negb_true_iff in S. exact S.
-  - apply andb_true_iff in S. destruct S as [S1 S2]. apply negb_true_iff in S1. apply iop_in_links; assumption.
-  - apply andb_true_iff in S. destruct S as [S1 S2]. apply negb_true_iff in S1. apply iop_child_links; assumption.
-  - apply andb_true_iff in S. destruct S as [S1 S2]. apply negb_true_iff in S1. apply set_div_links; assumption.
-  - discriminate.
-  - discriminate.
+  intros c h. induction h as [b d cp|l IHl cp|o l IHl r IHr cp]; simpl; intro H.
+  - destruct H as [-> | ->]; simpl; reflexivity.
+  - destruct H as [[-> H]|[-> H]]; simpl; [split; [reflexivity | exact H] | split; [reflexivity | apply IHl; exact H]].
+  - destruct H as [(-> & A & B)|(-> & A & B)]; simpl; [auto | split; [reflexivity | split; [apply IHl | apply IHr]; assumption]].
+Qed.
+Lemma link_true_owned : forall c h, kids_wm c h -> owned c (link_tree true c h).
+Proof.
+  intros c [b d cp|l cp|o l r cp]; simpl; intro H.
+  - reflexivity.
+  - split; [reflexivity | apply link_false_owned; exact H].
+  - destruct H. split; [reflexivity | split; apply link_false_owned; assumption].
+Qed.
+Lemma leaves_link_tree : forall isc c h f, leaves isc (link_tree f c h) = leaves isc h.
+Proof.
+  intros isc c h. induction h as [b d cp|l IHl cp|o l IHl r IHr cp]; intro f; simpl.
+  - destruct (orb f _); reflexivity.
+  - destruct (orb f _); simpl; [apply IHl | reflexivity].
+  - destruct (orb f _); simpl; [rewrite IHl, IHr; reflexivity | reflexivity].
 Qed.
 
-Lemma run_links : forall ops g, LinksAll g -> all_safe links_safe g ops = true -> LinksAll (run g ops).
+Lemma node_at_owned : forall p c t sub, owned c t -> node_at t p = Some sub -> owned c sub.
 Proof.
-  induction ops as [|o ops IH]; intros g L S; simpl in *; [exact L|].
-  apply andb_true_iff in S. destruct S as [S1 S2]. apply IH; [apply step_links; assumption | exact S2].
+  induction p as [|d p IH]; intros c t sub O H.
+  - destruct t; inversion H; subst; exact O.
+  - destruct t as [b dv cp|l cp|o l r cp]; destruct d; simpl in H; try discriminate; simpl in O.
+    + eapply IH; [apply O | exact H].
+    + destruct O as (_ & _ & Or). eapply IH; [exact Or | exact H].
+    + destruct O as (_ & Ol & _). eapply IH; [exact Ol | exact H].
+Qed.
+Lemma replace_at_owned : forall p c t n, owned c t -> owned c n -> owned c (replace_at t p n).
+Proof.
+  induction p as [|d p IH]; intros c t n O N.
+  - destruct t; exact N.
+  - destruct t as [b dv cp|l cp|o l r cp]; destruct d; simpl; try exact O; simpl in O.
+    + split; [apply O | apply IH; [apply O | exact N]].
+    + destruct O as (A & B & C). split; [exact A|]. split; [exact B | apply IH; assumption].
+    + destruct O as (A & B & C). split; [exact A|]. split; [apply IH; assumption | exact C].
+Qed.
+
+Lemma eval_ex_wm : forall c old e t, (forall h, old = Some h -> owned c h) -> eval_ex old e = Some t -> wm c t.
+Proof.
+  intros c old e. induction e as [| s | x | a IHa b IHb | a IHa b IHb | a IHa]; intros t O H; simpl in H.
+  - apply owned_wm. apply O. exact H.
+  - inversion H; subst. simpl. left. reflexivity.
+  - inversion H; subst. simpl. right. split; [reflexivity | left; reflexivity].
+  - destruct (eval_ex old a) as [x|]; [|discriminate]. destruct (eval_ex old b) as [y|]; [|discriminate].
+    inversion H; subst. simpl. right. split; [reflexivity|]. split; [apply IHa | apply IHb]; auto.
+  - destruct (eval_ex old a) as [x|]; [|discriminate]. destruct (eval_ex old b) as [y|]; [|discriminate].
+    inversion H; subst. simpl. right. split; [reflexivity|]. split; [apply IHa | apply IHb]; auto.
+  - destruct (eval_ex old a) as [x|]; [|discriminate]. inversion H; subst. simpl. right. split; [reflexivity | apply IHa; auto].
+Qed.
+Lemma fresh_ex_wm : forall c e t, fresh_ex e = Some t -> wm c t.
+Proof.
+  intros c e t H. unfold fresh_ex in H. destruct (Nat.eqb (uses_old e) 0); [|discriminate].
+  eapply eval_ex_wm; [|exact H]. intros h Hh. discriminate.
+Qed.
+
+(* ================================================================ linking a tree / a side to a cell *)
+Lemma link_geometry_spec : forall g c t g' t' b,
+  link_geometry g c t = (g', t', b) ->
+  grows g g' /\ frameG g g' /\ (forall isc, leaves isc t' = leaves isc t) /\
+  (b = true -> (forall isc, incl (leaves isc t) (lst isc (cellf g' c))) /\ t' = link_tree true c t) /\
+  (b = false -> g' = g /\ t' = t).
+Proof.
+  intros g c t g' t' b H. unfold link_geometry in H.
+  destruct (add_children g (Some c) t) as [g1 ok] eqn:E. inversion H; subst. pose proof E as E0.
+  apply add_children_spec in E. destruct E as (G & F & I). split; [exact G|]. split; [exact F|]. split; [|split].
+  - intro isc. destruct b; [apply leaves_link_tree | reflexivity].
+  - intros Hb. subst b. split; [intro isc; apply (I eq_refl c eq_refl) | reflexivity].
+  - intros Hb. subst b. split; [apply (add_children_refused _ _ _ _ E0) | reflexivity].
+Qed.
+
+Lemma link_side_spec : forall g cp side g' side' ok,
+  link_side g cp side = (g', side', ok) ->
+  grows g g' /\ frameG g g' /\ (forall isc, leaves isc side' = leaves isc side) /\
+  (ok = true -> forall c, cp = Some c -> forall isc, incl (leaves isc side) (lst isc (cellf g' c))) /\
+  (ok = false -> g' = g /\ side' = side) /\
+  (ok = true -> forall c, cp = Some c -> kids_wm c side -> (get_cp side = None \/ owned c side) -> owned c side').
+Proof.
+  intros g cp side g' side' ok H. unfold link_side in H. destruct cp as [c|].
+  - destruct (add_children g (Some c) side) as [g1 b] eqn:E. pose proof E as E0.
+    apply add_children_spec in E. destruct E as (G & F & I). destruct b; inversion H; subst; clear H.
+    + split; [exact G|]. split; [exact F|]. split; [|split; [|split]].
+      * intro isc. destruct (get_cp side); [reflexivity | apply leaves_link_tree].
+      * intros _ c' Hc isc. inversion Hc; subst c'. apply (I eq_refl c eq_refl).
+      * discriminate.
+      * intros _ c' Hc K O. inversion Hc; subst c'. destruct (get_cp side) eqn:Eg.
+        -- destruct O as [O|O]; [discriminate | exact O].
+        -- apply link_true_owned. exact K.
+    + apply add_children_refused in E0. subst g'. split; [apply grows_refl|]. split; [apply frameG_refl|].
+      split; [reflexivity|]. split; [discriminate|]. split; [auto | discriminate].
+  - inversion H; subst. split; [apply grows_refl|]. split; [apply frameG_refl|]. split; [reflexivity|].
+    split; [intros _ c Hc; discriminate|]. split; [discriminate | intros _ c Hc; discriminate].
+Qed.
+
+(* ================================================================ the augmented operators *)
+Definition is_leaf (h : hs) : bool := match h with Leaf _ _ _ => true | _ => false end.
+
+Lemma iop_bin_eq : forall g o o' l r cp other, is_leaf r = false ->
+  iop g o (Bin o' l r cp) other =
+  (let '(g1, r', inner_self, ok) := iop g o r other in
+   let r_now := if inner_self then r' else r in
+   if ok then
+     match link_side g1 cp r' with
+     | (g2, side, true) =>
+         match add_children g2 cp other with
+         | (g3, true) => (g3, Bin o' l side cp, true, true)
+         | (g3, false) => (g3, Bin o' l side cp, true, false)
+         end
+     | (g2, _, false) => (g2, Bin o' l r_now cp, true, false)
+     end
+   else (g1, Bin o' l r_now cp, true, false)).
+Proof. intros g o o' l r cp other H. destruct r; [discriminate | reflexivity | reflexivity]. Qed.
+
+Lemma iop_leaf_eq : forall g o o' l rb rd rcp cp other,
+  iop g o (Bin o' l (Leaf rb rd rcp) cp) other =
+  match link_side g cp (Bin o (Leaf rb rd rcp) other None) with
+  | (g1, side, true) => (g1, Bin o' l side cp, true, true)
+  | (g1, _, false) => (g1, Bin o' l (Leaf rb rd rcp) cp, true, false)
+  end.
+Proof. reflexivity. Qed.
+
+Lemma link_side_present : forall g c side,
+  (forall isc, incl (leaves isc side) (lst isc (cellf g c))) -> snd (link_side g (Some c) side) = true.
+Proof.
+  intros g c side H. unfold link_side. pose proof (add_children_present g c side H) as P.
+  destruct (add_children g (Some c) side) as [g1 b]. simpl in P. subst b. reflexivity.
+Qed.
+
+Lemma iop_spec : forall self g o other g' t' is_self ok c,
+  owned c self -> wm c other ->
+  (forall isc, incl (leaves isc self) (lst isc (cellf g c))) ->
+  iop g o self other = (g', t', is_self, ok) ->
+  grows g g' /\ frameG g g' /\
+  (forall isc, incl (leaves isc t') (leaves isc self ++ leaves isc other)) /\
+  (is_self = false -> g' = g /\ ok = true /\ get_cp t' = None /\ kids_wm c t' /\
+                      forall isc, incl (leaves isc other) (leaves isc t')) /\
+  (is_self = true -> ok = true ->
+     owned c t' /\ forall isc, incl (leaves isc other) (lst isc (cellf g' c))) /\
+  (is_self = true -> ok = false -> g' = g /\ t' = self).
+Proof.
+  intros self. induction self as [b d cp|l IHl cp|o' l IHl r IHr cp]; intros g o other g' t' is_self ok c O W L H.
+  - simpl in H. inversion H; subst. split; [apply grows_refl|]. split; [apply frameG_refl|].
+    split; [intro isc; simpl; apply incl_refl|]. split; [|split; discriminate].
+    intros _. split; [reflexivity|]. split; [reflexivity|]. split; [reflexivity|]. split.
+    + simpl. split; [right; exact O | exact W].
+    + intro isc. simpl. apply incl_appr, incl_refl.
+  - simpl in H. inversion H; subst. split; [apply grows_refl|]. split; [apply frameG_refl|].
+    split; [intro isc; simpl; apply incl_refl|]. split; [|split; discriminate].
+    intros _. split; [reflexivity|]. split; [reflexivity|]. split; [reflexivity|]. split.
+    + simpl. split; [right; split; [reflexivity | apply owned_wm; apply O] | exact W].
+    + intro isc. simpl. apply incl_appr, incl_refl.
+  - simpl in O. destruct O as (Ocp & Ol & Or). subst cp.
+    assert (Lr : forall isc, incl (leaves isc r) (lst isc (cellf g c))).
+    { intro isc. eapply incl_tran; [|apply (L isc)]. simpl. apply incl_appr, incl_refl. }
+    destruct (is_leaf r) eqn:Elf.
+    + (* right side is a leaf *)
+      destruct r as [rb rd rcp|rl rcp|ro rl rr rcp]; try discriminate. rewrite iop_leaf_eq in H.
+      destruct (link_side g (Some c) (Bin o (Leaf rb rd rcp) other None)) as [[g1 side] ok1] eqn:E.
+      apply link_side_spec in E. destruct E as (G & F & Lv & I & R & OW).
+      destruct ok1; inversion H; subst; clear H.
+      * split; [exact G|]. split; [exact F|]. split; [|split; [discriminate|split; [|discriminate]]].
+        -- intro isc. simpl. rewrite Lv. simpl. rewrite <- app_assoc. apply incl_refl.
+        -- intros _ _. split.
+           ++ simpl. split; [reflexivity|]. split; [exact Ol|]. apply (OW eq_refl c eq_refl).
+              ** cbn [kids_wm]. split; [apply (owned_wm c (Leaf rb rd rcp)); exact Or | exact W].
+              ** left. reflexivity.
+           ++ intro isc. eapply incl_tran; [|apply (I eq_refl c eq_refl isc)]. simpl. apply incl_appr, incl_refl.
+      * destruct (R eq_refl) as [-> _]. split; [apply grows_refl|]. split; [apply frameG_refl|].
+        split; [intro isc; apply incl_appl, incl_refl|]. split; [discriminate|]. split; [discriminate | auto].
+    + (* right side is a tree *)
+      rewrite iop_bin_eq in H by exact Elf.
+      destruct (iop g o r other) as [[[g1 r'] inner_self] ok0] eqn:E0.
+      destruct (IHr _ _ _ _ _ _ _ c Or W Lr E0) as (G0 & F0 & Lv0 & NS & SS & SF).
+      cbv zeta in H. destruct ok0.
+      * destruct (link_side g1 (Some c) r') as [[g2 side] ok2] eqn:E2. pose proof E2 as E2'.
+        apply link_side_spec in E2. destruct E2 as (G2 & F2 & Lv2 & I2 & R2 & OW2).
+        destruct ok2.
+        -- destruct (add_children g2 (Some c) other) as [g3 ok3] eqn:E3.
+           assert (P3 : ok3 = true).
+           { pose proof (add_children_present g2 c other) as P. rewrite E3 in P. apply P. intro isc.
+             destruct inner_self.
+             - destruct (SS eq_refl eq_refl) as [_ K]. destruct (G2 c) as [_ Inc].
+               eapply incl_tran; [apply K | apply Inc].
+             - destruct (NS eq_refl) as (_ & _ & _ & _ & K).
+               eapply incl_tran; [apply K|]. apply (I2 eq_refl c eq_refl). }
+           subst ok3. apply add_children_spec in E3. destruct E3 as (G3 & F3 & I3).
+           inversion H; subst; clear H.
+           split; [eapply grows_trans; [exact G0|]; eapply grows_trans; eauto|].
+           split; [eapply frameG_trans; [exact F0|]; eapply frameG_trans; eauto|].
+           split; [|split; [discriminate|split; [|discriminate]]].
+           ++ intro isc. simpl. rewrite Lv2. rewrite <- app_assoc. apply incl_app; [apply incl_appl, incl_refl|].
+              apply incl_appr. apply Lv0.
+           ++ intros _ _. split; [|intro isc; apply (I3 eq_refl c eq_refl)].
+              simpl. split; [reflexivity|]. split; [exact Ol|]. apply (OW2 eq_refl c eq_refl).
+              ** destruct inner_self.
+                 --- destruct (SS eq_refl eq_refl) as [K _]. apply wm_kids. apply owned_wm. exact K.
+                 --- destruct (NS eq_refl) as (_ & _ & _ & K & _). exact K.
+              ** destruct inner_self.
+                 --- destruct (SS eq_refl eq_refl) as [K _]. right. exact K.
+                 --- destruct (NS eq_refl) as (_ & _ & K & _). left. exact K.
+        -- (* the setter of this level refused *)
+           destruct (R2 eq_refl) as [-> ->]. inversion H; subst; clear H.
+           destruct inner_self.
+           ++ exfalso. destruct (SS eq_refl eq_refl) as [_ K].
+              assert (P : snd (link_side g' (Some c) r') = true).
+              { apply link_side_present. intro isc. eapply incl_tran; [apply Lv0|]. apply incl_app.
+                - destruct (G0 c) as [_ Inc]. eapply incl_tran; [apply Lr | apply Inc].
+                - apply K. }
+              rewrite E2' in P. discriminate.
+           ++ destruct (NS eq_refl) as (-> & _). split; [apply grows_refl|]. split; [apply frameG_refl|].
+              split; [intro isc; apply incl_appl, incl_refl|]. split; [discriminate|]. split; [discriminate | auto].
+      * inversion H; subst; clear H. destruct inner_self.
+        -- destruct (SF eq_refl eq_refl) as [-> ->]. split; [apply grows_refl|]. split; [apply frameG_refl|].
+           split; [intro isc; apply incl_appl, incl_refl|]. split; [discriminate|]. split; [discriminate | auto].
+        -- destruct (NS eq_refl) as (_ & K & _). discriminate.
 Qed.
 
 (* ================================================================ reading: update_pointers *)
@@ -642,10 +758,25 @@ Proof.
     + rewrite C2, C1, in_app_iff. tauto.
 Qed.
 
+Lemma hs_up_owned : forall g c h ls lc h' ls' lc',
+  hs_up g c h ls lc = (h', ls', lc', ROk) -> owned c h'.
+Proof.
+  intros g c h. induction h as [isc d cp|l IHl cp|o l IHl r IHr cp]; intros ls lc h' ls' lc' H; simpl in H.
+  - destruct d as [z|ob].
+    + destruct (lookup g (kind_of_isc isc) z) as [ob|]; [|discriminate].
+      destruct (list_add _ _ ob) as [l'|]; [|discriminate]. inversion H; subst. reflexivity.
+    + inversion H; subst. reflexivity.
+  - destruct (hs_up g c l ls lc) as [[[l' ls1] lc1] r1] eqn:E. inversion H; subst. simpl.
+    split; [reflexivity | eapply IHl; exact E].
+  - destruct (hs_up g c l ls lc) as [[[l' ls1] lc1] r1] eqn:E1. destruct r1; [|discriminate].
+    destruct (hs_up g c r ls1 lc1) as [[[r' ls2] lc2] r2] eqn:E2. inversion H; subst. simpl.
+    split; [reflexivity|]. split; [eapply IHl; exact E1 | eapply IHr; exact E2].
+Qed.
+
 Lemma cell_up_spec : forall g c g',
   cell_up g c = (g', ROk) -> (forall h, c_geom (cellf g c) = Some h -> all_int h) ->
   cell_exact (cellf g' c) /\ (forall x, x <> c -> cellf g' x = cellf g x) /\ frameG g g' /\
-  (forall k o, num g' k o = num g k o).
+  (forall k o, num g' k o = num g k o) /\ (forall h, c_geom (cellf g' c) = Some h -> owned c h).
 Proof.
   intros g c g' H A. unfold cell_up in H.
   set (r0 := cr_lnk (cr_lists (cellf g c) [] []) false) in *.
@@ -653,32 +784,35 @@ Proof.
   destruct (c_geom (cr_mat r0 m)) as [h|] eqn:Eg; [|discriminate].
   destruct (hs_up g c h [] []) as [[[h' ls] lc] rs] eqn:E. inversion H; subst. clear H.
   assert (Ah : all_int h) by (apply A; exact Eg).
-  destruct (hs_up_spec _ _ _ _ _ _ _ _ Ah E) as [S C]. split; [|split; [|split]].
+  destruct (hs_up_spec _ _ _ _ _ _ _ _ Ah E) as [S C]. split; [|split; [|split; [|split]]].
   - rewrite cellf_set_cell_same. intros h0 Hh isc x. simpl in Hh. inversion Hh; subst h0.
     destruct isc; simpl; [rewrite C | rewrite S]; simpl; tauto.
   - intros x N. apply cellf_set_cell_other. exact N.
   - apply set_cell_frameG. reflexivity.
   - reflexivity.
+  - intros h0 Hh. rewrite cellf_set_cell_same in Hh. simpl in Hh. inversion Hh; subst h0.
+    eapply hs_up_owned. exact E.
 Qed.
 
 Lemma cells_up_spec : forall cs g g',
   cells_up g cs = (g', ROk) -> NoDup cs ->
   (forall c, In c cs -> forall h, c_geom (cellf g c) = Some h -> all_int h) ->
   (forall c, In c cs -> cell_exact (cellf g' c)) /\ (forall x, ~ In x cs -> cellf g' x = cellf g x) /\
-  frameG g g'.
+  frameG g g' /\ (forall c, In c cs -> forall h, c_geom (cellf g' c) = Some h -> owned c h).
 Proof.
   induction cs as [|c cs IH]; intros g g' H N A; simpl in H.
-  - inversion H; subst. split; [intros c []|]. split; [reflexivity | apply frameG_refl].
+  - inversion H; subst. split; [intros c []|]. split; [reflexivity|]. split; [apply frameG_refl | intros c []].
   - destruct (cell_up g c) as [g1 r1] eqn:E. destruct r1; [|inversion H].
     inversion N as [|? ? Nc Ncs]; subst.
-    destruct (cell_up_spec _ _ _ E (A c (or_introl eq_refl))) as (X1 & O1 & F1 & _).
+    destruct (cell_up_spec _ _ _ E (A c (or_introl eq_refl))) as (X1 & O1 & F1 & _ & W1).
     assert (A1 : forall c0, In c0 cs -> forall h, c_geom (cellf g1 c0) = Some h -> all_int h).
     { intros c0 Hc h Hh. rewrite O1 in Hh by (intro; subst; contradiction). apply (A c0 (or_intror Hc) h Hh). }
-    destruct (IH _ _ H Ncs A1) as (X2 & O2 & F2). split; [|split].
+    destruct (IH _ _ H Ncs A1) as (X2 & O2 & F2 & W2). split; [|split; [|split]].
     + intros c0 [<-|Hc]; [rewrite O2 by exact Nc; exact X1 | apply X2; exact Hc].
     + intros x Hx. rewrite O2 by (intro; apply Hx; right; assumption).
       apply O1. intro; subst; apply Hx; left; reflexivity.
     + eapply frameG_trans; eauto.
+    + intros c0 [<-|Hc] h Hh; [rewrite O2 in Hh by exact Nc; apply W1; exact Hh | apply (W2 c0 Hc h Hh)].
 Qed.
 
 Lemma push_data_quiet : forall f, (forall r v, same_rec r (f r v) /\ c_univ (f r v) = c_univ r) ->
@@ -843,7 +977,8 @@ Theorem update_pointers_spec : forall g0 g,
   Raw g0 -> Linked g0 -> update_pointers g0 = (g, ROk) ->
   LinksExact g /\ Linked g /\ UnivOK g /\ coll g KCell = coll g0 KCell /\
   (forall x, ~ In x (coll g0 KCell) ->
-     c_geom (cellf g x) = c_geom (cellf g0 x) /\ forall isc, lst isc (cellf g x) = lst isc (cellf g0 x)).
+     c_geom (cellf g x) = c_geom (cellf g0 x) /\ forall isc, lst isc (cellf g x) = lst isc (cellf g0 x)) /\
+  (forall c, In c (coll g KCell) -> forall h, c_geom (cellf g c) = Some h -> owned c h).
 Proof.
   intros g0 g [ND RA] LK H. unfold update_pointers in H.
   destruct (andb (ran g0) _); [discriminate|].
@@ -851,7 +986,7 @@ Proof.
   assert (Ca : same_core g0 ga) by (repeat split; reflexivity).
   destruct (cells_up ga (coll ga KCell)) as [g1 r1] eqn:E1. destruct r1; [|discriminate].
   assert (RAa : forall c, In c (coll ga KCell) -> forall h, c_geom (cellf ga c) = Some h -> all_int h) by exact RA.
-  destruct (cells_up_spec _ _ _ E1 ND RAa) as (X1 & O1 & F1).
+  destruct (cells_up_spec _ _ _ E1 ND RAa) as (X1 & O1 & F1 & W1).
   set (g2 := match data_u g1 with
              | Some vals => if negb (ran g0) then push_data cr_oldu g1 (coll g1 KCell) vals else g1
              | None => g1 end) in *.
@@ -884,7 +1019,9 @@ Proof.
   { rewrite C3 by discriminate. exact CC2. }
   assert (CC : coll g KCell = coll g0 KCell).
   { destruct Q37 as [_ (A & _)]. rewrite A. exact CC3. }
-  split; [|split; [|split; [|split]]].
+  assert (SL : same_lk g1 g).
+  { eapply same_lk_trans; [apply Q2|]. eapply same_lk_trans; [exact S3 | apply Q37]. }
+  split; [|split; [|split; [|split; [|split]]]].
   - intros c Hc. rewrite CC in Hc.
     eapply cell_exact_same_lk; [apply Q37|]. eapply cell_exact_same_lk; [exact S3|].
     eapply cell_exact_same_lk; [apply Q2|]. apply X1. destruct Ca as (_ & B & _). rewrite B. exact Hc.
@@ -892,23 +1029,469 @@ Proof.
   - intros c Hc. rewrite CC in Hc. eapply has_univ_frameG; [apply Q37|]. apply H3. rewrite CC2. exact Hc.
   - exact CC.
   - intros x Hx.
-    assert (SL : same_lk g1 g).
-    { eapply same_lk_trans; [apply Q2|]. eapply same_lk_trans; [exact S3 | apply Q37]. }
     destruct (SL x) as [E1' E2']. rewrite E1'. rewrite O1 by exact Hx. split; [reflexivity|].
     intro isc. rewrite E2'. rewrite O1 by exact Hx. reflexivity.
+  - intros c Hc h Hh. rewrite CC in Hc. destruct (SL c) as [E1' _]. rewrite E1' in Hh.
+    apply (W1 c); [destruct Ca as (_ & B & _); rewrite B; exact Hc | exact Hh].
 Qed.
 
 Lemma read_then_links_all : forall g0 g,
   Raw g0 -> Linked g0 -> update_pointers g0 = (g, ROk) ->
   (forall x, ~ In x (coll g0 KCell) -> cell_ok (cellf g0 x)) -> LinksAll g.
 Proof.
-  intros g0 g R L H NM. destruct (update_pointers_spec g0 g R L H) as (X & _ & _ & CC & O).
+  intros g0 g R L H NM. destruct (update_pointers_spec g0 g R L H) as (X & _ & _ & CC & O & _).
   intro c. destruct (in_dec Nat.eq_dec c (coll g0 KCell)) as [Hc|Hc].
   - apply cell_exact_ok. apply X. rewrite CC. exact Hc.
   - destruct (O c Hc) as [E1' E2']. intros h Hh isc. rewrite E1' in Hh. rewrite E2'. apply (NM c Hc h Hh isc).
 Qed.
 
+
+(* ================================================================ Links and Owned are preserved, operation by operation *)
+Definition Inv (g : st) : Prop := LinksAll g /\ Owned g.
+
+Lemma Owned_grows : forall g g', grows g g' -> Owned g -> Owned g'.
+Proof. intros g g' G O c h Hh. destruct (G c) as [E _]. rewrite E in Hh. apply O. exact Hh. Qed.
+Lemma Inv_grows : forall g g', grows g g' -> Inv g -> Inv g'.
+Proof. intros g g' G [L O]. split; [eapply LinksAll_grows; eauto | eapply Owned_grows; eauto]. Qed.
+Lemma Inv_same_lk : forall g g', same_lk g g' -> Inv g -> Inv g'.
+Proof. intros g g' H. apply Inv_grows. apply same_lk_grows. exact H. Qed.
+
+Lemma inv_set_geom : forall g c t,
+  Inv g -> (forall isc, incl (leaves isc t) (lst isc (cellf g c))) -> owned c t ->
+  Inv (set_cell g c (cr_geom (cellf g c) (Some t))).
+Proof.
+  intros g c t [L O] I Ot. split.
+  - intro x. destruct (Nat.eq_dec x c) as [->|N].
+    + rewrite cellf_set_cell_same. intros h Hh isc. simpl in Hh. inversion Hh; subst h.
+      destruct isc; simpl; [apply (I true) | apply (I false)].
+    + rewrite cellf_set_cell_other by exact N. apply L.
+  - intros x h Hh. destruct (Nat.eq_dec x c) as [->|N].
+    + rewrite cellf_set_cell_same in Hh. simpl in Hh. inversion Hh; subst h. exact Ot.
+    + rewrite cellf_set_cell_other in Hh by exact N. apply O. exact Hh.
+Qed.
+
+Lemma cell_leaves_in : forall g c t isc, Inv g -> c_geom (cellf g c) = Some t -> incl (leaves isc t) (lst isc (cellf g c)).
+Proof. intros g c t isc [L _] E. apply (L c t E isc). Qed.
+
+Lemma set_geom_inv : forall g c e, Inv g -> Inv (fst (set_geom g c e)).
+Proof.
+  intros g c e V. unfold set_geom. destruct (Nat.ltb 1 (uses_old e)); [exact V|].
+  destruct (eval_ex _ e) as [t|] eqn:Ee; [|exact V].
+  assert (W : wm c t) by (eapply eval_ex_wm; [|exact Ee]; intros h Hh; apply (proj2 V); exact Hh).
+  destruct (link_geometry g c t) as [[g1 t'] ok] eqn:E. apply link_geometry_spec in E.
+  destruct E as (G & F & Lv & T & Fl). pose proof (Inv_grows _ _ G V) as V1. destruct ok; simpl; [|exact V1].
+  destruct (T eq_refl) as [I ->]. apply inv_set_geom; [exact V1 | | apply link_true_owned, wm_kids, W].
+  intro isc. rewrite leaves_link_tree. apply I.
+Qed.
+
+Lemma iop_set_inv : forall g c o e, Inv g -> Inv (fst (iop_set g c o e)).
+Proof.
+  intros g c o e V. unfold iop_set. destruct (fresh_ex e) as [other|] eqn:Ef; [|exact V].
+  destruct (c_geom (cellf g c)) as [t|] eqn:Eg; [|exact V].
+  destruct (iop g o t other) as [[[g1 t1] is_self] ok] eqn:Ei.
+  assert (Ot : owned c t) by (apply (proj2 V); exact Eg).
+  assert (Wo : wm c other) by (eapply fresh_ex_wm; exact Ef).
+  assert (Lt : forall isc, incl (leaves isc t) (lst isc (cellf g c))) by (intro; apply cell_leaves_in; assumption).
+  destruct (iop_spec _ _ _ _ _ _ _ _ c Ot Wo Lt Ei) as (G1 & F1 & Lv & NS & SS & SF).
+  pose proof (Inv_grows _ _ G1 V) as V1.
+  assert (Lt1 : forall isc, incl (leaves isc t) (lst isc (cellf g1 c))).
+  { intro isc. destruct (G1 c) as [_ Inc]. eapply incl_tran; [apply Lt | apply Inc]. }
+  destruct ok.
+  - destruct (link_geometry g1 c t1) as [[g2 t2] ok2] eqn:E2. apply link_geometry_spec in E2.
+    destruct E2 as (G2 & F2 & Lv2 & T2 & Fl2). pose proof (Inv_grows _ _ G2 V1) as V2. destruct ok2; simpl.
+    + destruct (T2 eq_refl) as [I2 ->]. apply inv_set_geom; [exact V2 | intro isc; rewrite leaves_link_tree; apply I2|].
+      apply link_true_owned. destruct is_self.
+      * apply wm_kids, owned_wm. apply (SS eq_refl eq_refl).
+      * apply (NS eq_refl).
+    + destruct (Fl2 eq_refl) as [-> ->]. destruct is_self; [|exact V1]. simpl.
+      destruct (SS eq_refl eq_refl) as [O1 K]. apply inv_set_geom; [exact V1 | | exact O1].
+      intro isc. eapply incl_tran; [apply Lv|]. apply incl_app; [apply Lt1 | apply K].
+  - simpl. destruct is_self.
+    + destruct (SF eq_refl eq_refl) as [-> ->]. apply inv_set_geom; [exact V | exact Lt | exact Ot].
+    + destruct (NS eq_refl) as (_ & K & _). discriminate.
+Qed.
+
+Lemma iop_in_inv : forall g c p o e, Inv g -> Inv (fst (iop_in g c p o e)).
+Proof.
+  intros g c p o e V. unfold iop_in. destruct (fresh_ex e) as [other|] eqn:Ef; [|exact V].
+  destruct (c_geom (cellf g c)) as [t|] eqn:Eg; [|exact V].
+  destruct (node_at t p) as [sub|] eqn:En; [|exact V].
+  destruct (iop g o sub other) as [[[g1 sub1] is_self] ok] eqn:Ei.
+  assert (Ot : owned c t) by (apply (proj2 V); exact Eg).
+  assert (Os : owned c sub) by (eapply node_at_owned; [exact Ot | exact En]).
+  assert (Wo : wm c other) by (eapply fresh_ex_wm; exact Ef).
+  assert (Lt : forall isc, incl (leaves isc t) (lst isc (cellf g c))) by (intro; apply cell_leaves_in; assumption).
+  assert (Ls : forall isc, incl (leaves isc sub) (lst isc (cellf g c))).
+  { intro isc. eapply incl_tran; [eapply node_at_leaves; exact En | apply Lt]. }
+  destruct (iop_spec _ _ _ _ _ _ _ _ c Os Wo Ls Ei) as (G1 & F1 & Lv & NS & SS & SF).
+  pose proof (Inv_grows _ _ G1 V) as V1.
+  assert (Lt1 : forall isc, incl (leaves isc t) (lst isc (cellf g1 c))).
+  { intro isc. destruct (G1 c) as [_ Inc]. eapply incl_tran; [apply Lt | apply Inc]. }
+  simpl. destruct is_self; [|apply inv_set_geom; [exact V1 | exact Lt1 | exact Ot]].
+  destruct ok.
+  - destruct (SS eq_refl eq_refl) as [O1 K]. apply inv_set_geom; [exact V1 | | apply replace_at_owned; assumption].
+    intro isc. eapply incl_tran; [apply replace_at_leaves|]. apply incl_app; [apply Lt1|].
+    eapply incl_tran; [apply Lv|]. apply incl_app; [|apply K].
+    eapply incl_tran; [eapply node_at_leaves; exact En | apply Lt1].
+  - destruct (SF eq_refl eq_refl) as [-> ->]. apply inv_set_geom; [exact V | | apply replace_at_owned; assumption].
+    intro isc. eapply incl_tran; [apply replace_at_leaves|]. apply incl_app; [apply Lt | apply Ls].
+Qed.
+
+Lemma iop_child_inv : forall g c p s o e, Inv g -> Inv (fst (iop_child g c p s o e)).
+Proof.
+  intros g c p s o e V. unfold iop_child. destruct (fresh_ex e) as [other|] eqn:Ef; [|exact V].
+  destruct (c_geom (cellf g c)) as [t|] eqn:Eg; [|exact V].
+  destruct (node_at t p) as [parent|] eqn:Ep; [|exact V].
+  destruct (node_at t (p ++ [s])) as [sub|] eqn:En; [|exact V].
+  destruct (iop g o sub other) as [[[g1 sub1] is_self] ok] eqn:Ei.
+  assert (Ot : owned c t) by (apply (proj2 V); exact Eg).
+  assert (Os : owned c sub) by (eapply node_at_owned; [exact Ot | exact En]).
+  assert (Op : get_cp parent = Some c) by (apply owned_cp; apply (node_at_owned p c t parent Ot Ep)).
+  assert (Wo : wm c other) by (eapply fresh_ex_wm; exact Ef).
+  assert (Lt : forall isc, incl (leaves isc t) (lst isc (cellf g c))) by (intro; apply cell_leaves_in; assumption).
+  assert (Ls : forall isc, incl (leaves isc sub) (lst isc (cellf g c))).
+  { intro isc. eapply incl_tran; [eapply node_at_leaves; exact En | apply Lt]. }
+  destruct (iop_spec _ _ _ _ _ _ _ _ c Os Wo Ls Ei) as (G1 & F1 & Lv & NS & SS & SF).
+  pose proof (Inv_grows _ _ G1 V) as V1.
+  assert (Lt1 : forall isc, incl (leaves isc t) (lst isc (cellf g1 c))).
+  { intro isc. destruct (G1 c) as [_ Inc]. eapply incl_tran; [apply Lt | apply Inc]. }
+  assert (Ls1 : forall isc, incl (leaves isc sub) (lst isc (cellf g1 c))).
+  { intro isc. eapply incl_tran; [eapply node_at_leaves; exact En | apply Lt1]. }
+  destruct ok.
+  - rewrite Op. destruct (link_side g1 (Some c) sub1) as [[g2 sub2] ok2] eqn:E2.
+    apply link_side_spec in E2. destruct E2 as (G2 & F2 & Lv2 & I2 & R2 & OW2).
+    pose proof (Inv_grows _ _ G2 V1) as V2.
+    assert (Lt2 : forall isc, incl (leaves isc t) (lst isc (cellf g2 c))).
+    { intro isc. destruct (G2 c) as [_ Inc]. eapply incl_tran; [apply Lt1 | apply Inc]. }
+    destruct ok2; simpl.
+    + apply inv_set_geom; [exact V2 | |].
+      * intro isc. eapply incl_tran; [apply replace_at_leaves|]. apply incl_app; [apply Lt2|].
+        rewrite Lv2. apply (I2 eq_refl c eq_refl).
+      * apply replace_at_owned; [exact Ot|]. apply (OW2 eq_refl c eq_refl).
+        -- destruct is_self; [apply wm_kids, owned_wm; apply (SS eq_refl eq_refl) | apply (NS eq_refl)].
+        -- destruct is_self; [right; apply (SS eq_refl eq_refl) | left; apply (NS eq_refl)].
+    + destruct (R2 eq_refl) as [-> ->]. destruct is_self; [|apply inv_set_geom; [exact V1 | exact Lt1 | exact Ot]].
+      destruct (SS eq_refl eq_refl) as [O1 K]. apply inv_set_geom; [exact V1 | | apply replace_at_owned; assumption].
+      intro isc. eapply incl_tran; [apply replace_at_leaves|]. apply incl_app; [apply Lt1|].
+      eapply incl_tran; [apply Lv|]. apply incl_app; [apply Ls1 | apply K].
+  - simpl. destruct is_self.
+    + destruct (SF eq_refl eq_refl) as [-> ->]. apply inv_set_geom; [exact V | | apply replace_at_owned; assumption].
+      intro isc. eapply incl_tran; [apply replace_at_leaves|]. apply incl_app; [apply Lt | apply Ls].
+    + destruct (NS eq_refl) as (_ & K & _). discriminate.
+Qed.
+
+Lemma set_div_inv : forall g c p isc d, Inv g -> Inv (fst (set_div g c p isc d)).
+Proof.
+  intros g c p isc d V. unfold set_div.
+  destruct (c_geom (cellf g c)) as [t|] eqn:Eg; [|exact V].
+  destruct (node_at t p) as [[b dv cp|l cp|o l r cp]|] eqn:En; try exact V.
+  destruct (Bool.eqb b isc) eqn:Eb; simpl negb; cbv iota; [|exact V].
+  apply Bool.eqb_prop in Eb. subst b.
+  assert (Ot : owned c t) by (apply (proj2 V); exact Eg).
+  assert (Ol : owned c (Leaf isc dv cp)) by (eapply node_at_owned; [exact Ot | exact En]). simpl in Ol. subst cp.
+  destruct (cell_add g c isc d) as [g2 b] eqn:E. apply cell_add_spec in E. destruct E as (G & F & I).
+  pose proof (Inv_grows _ _ G V) as V2. destruct b; simpl; [|exact V2].
+  apply inv_set_geom; [exact V2 | | apply replace_at_owned; [exact Ot | reflexivity]].
+  intro isc'. eapply incl_tran; [apply replace_at_leaves|]. apply incl_app.
+  - destruct (G c) as [_ Inc]. eapply incl_tran; [apply (cell_leaves_in g c t isc' V Eg) | apply Inc].
+  - simpl. destruct (Bool.eqb isc isc') eqn:Eb; [|intros y []].
+    apply Bool.eqb_prop in Eb. subst isc'. intros y [<-|[]]. apply I. reflexivity.
+Qed.
+
+(* ---- remove_duplicate_surfaces *)
+Definition survivors_ok (m : list (oid * oid)) : Prop := forall d k, In (d, k) m -> ~ In k (map fst m).
+
+Lemma dedup_map_ok_spec : forall m, dedup_map_ok m = true -> survivors_ok m.
+Proof.
+  intros m H d k Hin K. unfold dedup_map_ok in H. apply andb_true_iff in H. destruct H as [_ H].
+  rewrite forallb_forall in H. specialize (H (d, k) Hin). simpl in H. apply negb_true_iff in H.
+  apply mem_o_In in K. rewrite K in H. discriminate.
+Qed.
+
+Lemma assoc_In : forall m o k, assoc m o = Some k -> In (o, k) m.
+Proof.
+  induction m as [|[a b] m IH]; intros o k H; simpl in H; [discriminate|].
+  destruct (Nat.eqb a o) eqn:E.
+  - apply Nat.eqb_eq in E. inversion H; subst. left. reflexivity.
+  - right. apply IH. exact H.
+Qed.
+Lemma assoc_None : forall m o, assoc m o = None -> ~ In o (map fst m).
+Proof.
+  induction m as [|[a b] m IH]; intros o H; simpl in *; [tauto|].
+  destruct (Nat.eqb a o) eqn:E; [discriminate|]. apply Nat.eqb_neq in E. intros [K|K]; [contradiction|].
+  apply (IH o H K).
+Qed.
+
+Lemma hs_dedup_spec : forall h g m g' h' ok c,
+  survivors_ok m -> owned c h -> hs_dedup g m h = (g', h', ok) ->
+  grows g g' /\ frameG g g' /\ owned c h' /\ leaves true h' = leaves true h /\
+  (incl (leaves false h) (lst false (cellf g c)) -> incl (leaves false h') (lst false (cellf g' c))) /\
+  (ok = true -> forall x, In x (leaves false h') -> ~ In x (map fst m)).
+Proof.
+  intros h. induction h as [isc d cp|l IHl cp|o l IHl r IHr cp]; intros g m g' h' ok c S O H.
+  - assert (Triv : forall isc0 d0, (isc0 = true \/ exists z, d0 = DInt z) ->
+                   (g, Leaf isc0 d0 cp, true) = (g', h', ok) ->
+                   grows g g' /\ frameG g g' /\ owned c h' /\ leaves true h' = leaves true (Leaf isc0 d0 cp) /\
+                   (incl (leaves false (Leaf isc0 d0 cp)) (lst false (cellf g c)) ->
+                    incl (leaves false h') (lst false (cellf g' c))) /\
+                   (ok = true -> forall x, In x (leaves false h') -> ~ In x (map fst m))).
+    { intros isc0 d0 Hc E. inversion E; subst. split; [apply grows_refl|]. split; [apply frameG_refl|].
+      split; [exact O|]. split; [reflexivity|]. split; [auto|]. intros _ x Hx.
+      destruct Hc as [-> | [z ->]]; [destruct d0; simpl in Hx; destruct Hx | simpl in Hx; destruct isc0; destruct Hx]. }
+    destruct isc; [apply (Triv true d); [left; reflexivity | exact H]|].
+    destruct d as [z|ob]; [apply (Triv false (DInt z)); [right; exists z; reflexivity | exact H]|].
+    simpl in H. simpl in O. subst cp.
+    destruct (assoc m ob) as [k|] eqn:Ea.
+    + destruct (cell_add g c false k) as [g1 b] eqn:E. apply cell_add_spec in E. destruct E as (G & F & I).
+      inversion H; subst; clear H. split; [exact G|]. split; [exact F|]. destruct ok.
+      * split; [reflexivity|]. split; [reflexivity|]. split.
+        -- intros _ x [<-|[]]. apply I. reflexivity.
+        -- intros _ x [<-|[]]. apply (S ob k). apply assoc_In. exact Ea.
+      * split; [reflexivity|]. split; [reflexivity|]. split; [|discriminate].
+        intros K. destruct (G c) as [_ Inc]. eapply incl_tran; [exact K | apply (Inc false)].
+    + inversion H; subst. split; [apply grows_refl|]. split; [apply frameG_refl|]. split; [reflexivity|].
+      split; [reflexivity|]. split; [auto|]. intros _ x [<-|[]]. apply assoc_None. exact Ea.
+  - simpl in H. destruct (hs_dedup g m l) as [[g1 l'] ok1] eqn:E. inversion H; subst; clear H.
+    simpl in O. destruct O as [Ocp Ol].
+    destruct (IHl _ _ _ _ _ c S Ol E) as (G & F & O1 & Lt & Lf & K).
+    split; [exact G|]. split; [exact F|]. split; [simpl; auto|]. split; [simpl; exact Lt|]. split; [simpl; exact Lf|].
+    simpl. exact K.
+  - simpl in H. simpl in O. destruct O as (Ocp & Ol & Or).
+    destruct (hs_dedup g m l) as [[g1 l'] ok1] eqn:E1.
+    destruct (IHl _ _ _ _ _ c S Ol E1) as (G1 & F1 & O1 & Lt1 & Lf1 & K1).
+    destruct ok1.
+    + destruct (hs_dedup g1 m r) as [[g2 r'] ok2] eqn:E2. inversion H; subst; clear H.
+      destruct (IHr _ _ _ _ _ c S Or E2) as (G2 & F2 & O2 & Lt2 & Lf2 & K2).
+      split; [eapply grows_trans; eauto|]. split; [eapply frameG_trans; eauto|]. split; [simpl; auto|].
+      split; [simpl; rewrite Lt1, Lt2; reflexivity|]. split.
+      * simpl. intro Hin. apply incl_app.
+        -- destruct (G2 c) as [_ Inc]. eapply incl_tran; [|apply (Inc false)]. apply Lf1.
+           eapply incl_tran; [|exact Hin]. apply incl_appl, incl_refl.
+        -- apply Lf2. destruct (G1 c) as [_ Inc]. eapply incl_tran; [|apply (Inc false)].
+           eapply incl_tran; [|exact Hin]. apply incl_appr, incl_refl.
+      * intros Hok x Hx. simpl in Hx. apply in_app_or in Hx. destruct Hx as [Hx|Hx]; [apply (K1 eq_refl x Hx) | apply (K2 Hok x Hx)].
+    + inversion H; subst; clear H. split; [exact G1|]. split; [exact F1|]. split; [simpl; auto|].
+      split; [simpl; rewrite Lt1; reflexivity|]. split; [|discriminate].
+      simpl. intro Hin. apply incl_app.
+      * apply Lf1. eapply incl_tran; [|exact Hin]. apply incl_appl, incl_refl.
+      * destruct (G1 c) as [_ Inc]. eapply incl_tran; [|apply (Inc false)].
+        eapply incl_tran; [|exact Hin]. apply incl_appr, incl_refl.
+Qed.
+
+(* what swap_lists keeps *)
+Definition swapped (c : oid) (m : list (oid * oid)) (g g' : st) : Prop :=
+  frameG g g' /\ (forall x, c_geom (cellf g' x) = c_geom (cellf g x)) /\
+  (forall x, x <> c -> forall isc, incl (lst isc (cellf g x)) (lst isc (cellf g' x))) /\
+  incl (c_comps (cellf g c)) (c_comps (cellf g' c)) /\
+  (forall y, In y (c_surfs (cellf g c)) -> ~ In y (map fst m) -> In y (c_surfs (cellf g' c))).
+
+Lemma swap_lists_spec : forall m g c, swapped c m g (fst (swap_lists g c m)).
+Proof.
+  induction m as [|[dead kept] m IH]; intros g c; simpl.
+  - split; [apply frameG_refl|]. split; [reflexivity|]. split; [intros; apply incl_refl|]. split; [apply incl_refl | auto].
+  - destruct (mem_o dead (c_surfs (cellf g c))) eqn:M.
+    + set (g1 := set_cell g c (cr_lists (cellf g c) (remove_first dead (c_surfs (cellf g c))) (c_comps (cellf g c)))).
+      assert (S1 : swapped c ((dead, kept) :: m) g g1).
+      { split; [apply set_cell_frameG; reflexivity|]. split; [|split; [|split]].
+        - intro x. unfold g1. destruct (Nat.eq_dec x c) as [->|N];
+            [rewrite cellf_set_cell_same; reflexivity | rewrite cellf_set_cell_other by exact N; reflexivity].
+        - intros x N isc. unfold g1. rewrite cellf_set_cell_other by exact N. apply incl_refl.
+        - unfold g1. rewrite cellf_set_cell_same. apply incl_refl.
+        - intros y Hy Hn. unfold g1. rewrite cellf_set_cell_same. simpl. apply remove_first_other; [|exact Hy].
+          intro; subst. apply Hn. left. reflexivity. }
+      destruct (cell_add g1 c false kept) as [g2 b] eqn:E. apply cell_add_spec in E. destruct E as (G & F & I).
+      assert (S2 : swapped c ((dead, kept) :: m) g g2).
+      { destruct S1 as (A1 & A2 & A3 & A4 & A5). split; [eapply frameG_trans; eauto|]. split; [|split; [|split]].
+        - intro x. destruct (G x) as [E _]. rewrite E. apply A2.
+        - intros x N isc. destruct (G x) as [_ Inc]. eapply incl_tran; [apply A3; exact N | apply Inc].
+        - destruct (G c) as [_ Inc]. eapply incl_tran; [exact A4 | apply (Inc true)].
+        - intros y Hy Hn. destruct (G c) as [_ Inc]. apply (Inc false). apply A5; assumption. }
+      destruct b; [|exact S2]. specialize (IH g2 c).
+      destruct S2 as (A1 & A2 & A3 & A4 & A5). destruct IH as (B1 & B2 & B3 & B4 & B5).
+      split; [eapply frameG_trans; eauto|]. split; [|split; [|split]].
+      * intro x. rewrite B2. apply A2.
+      * intros x N isc. eapply incl_tran; [apply A3; exact N | apply B3; exact N].
+      * eapply incl_tran; eauto.
+      * intros y Hy Hn. apply B5; [apply A5; assumption|]. intro K. apply Hn. right. exact K.
+    + split; [apply frameG_refl|]. split; [reflexivity|]. split; [intros; apply incl_refl|]. split; [apply incl_refl | auto].
+Qed.
+
+Lemma survivors_ok_filter : forall f m, survivors_ok m -> survivors_ok (filter f m).
+Proof.
+  intros f m S d k Hin K. apply filter_In in Hin. destruct Hin as [Hin _]. apply (S d k Hin).
+  apply in_map_iff in K. destruct K as [[a b] [E Hab]]. apply filter_In in Hab. destruct Hab as [Hab _].
+  apply in_map_iff. exists (a, b). auto.
+Qed.
+
+Lemma cell_dedup_inv : forall g c m, survivors_ok m -> Inv g ->
+  Inv (fst (cell_dedup g c m)) /\ frameG g (fst (cell_dedup g c m)).
+Proof.
+  intros g c m S V. unfold cell_dedup.
+  set (m' := filter (fun p => mem_o (fst p) (c_surfs (cellf g c))) m).
+  assert (S' : survivors_ok m') by (apply survivors_ok_filter; exact S).
+  destruct m' as [|p0 mr] eqn:Em; [split; [exact V | apply frameG_refl]|]. rewrite <- Em in *. clear Em p0 mr.
+  destruct (c_geom (cellf g c)) as [t|] eqn:Eg; [|split; [exact V | apply frameG_refl]].
+  assert (Ot : owned c t) by (apply (proj2 V); exact Eg).
+  destruct (hs_dedup g m' t) as [[g1 t'] ok] eqn:E.
+  destruct (hs_dedup_spec _ _ _ _ _ _ c S' Ot E) as (G & F & O1 & Lt & Lf & K).
+  pose proof (Inv_grows _ _ G V) as V1.
+  set (g2 := set_cell g1 c (cr_geom (cellf g1 c) (Some t'))).
+  assert (Lt' : forall isc, incl (leaves isc t') (lst isc (cellf g1 c))).
+  { intros [|].
+    - rewrite Lt. destruct (G c) as [_ Inc]. eapply incl_tran; [apply (cell_leaves_in g c t true V Eg) | apply (Inc true)].
+    - apply Lf. apply (cell_leaves_in g c t false V Eg). }
+  assert (V2 : Inv g2) by (apply inv_set_geom; assumption).
+  assert (F2 : frameG g g2) by (eapply frameG_trans; [exact F | apply set_cell_frameG; reflexivity]).
+  destruct ok; [|split; [exact V2 | exact F2]].
+  pose proof (swap_lists_spec m' g2 c) as (B1 & B2 & B3 & B4 & B5).
+  set (g3 := fst (swap_lists g2 c m')) in *.
+  assert (Eg2 : c_geom (cellf g2 c) = Some t') by (unfold g2; rewrite cellf_set_cell_same; reflexivity).
+  assert (Lst2 : forall isc, lst isc (cellf g2 c) = lst isc (cellf g1 c))
+    by (intro isc; unfold g2; rewrite cellf_set_cell_same; destruct isc; reflexivity).
+  assert (V3 : Inv g3).
+  { destruct V2 as [L2 O2]. split.
+    - intro x. destruct (Nat.eq_dec x c) as [->|N].
+      + intros h Hh isc. rewrite B2, Eg2 in Hh. inversion Hh; subst h. destruct isc; simpl.
+        * eapply incl_tran; [|exact B4]. change (c_comps (cellf g2 c)) with (lst true (cellf g2 c)).
+          rewrite (Lst2 true). apply (Lt' true).
+        * intros y Hy. apply B5; [|apply (K eq_refl y Hy)].
+          change (c_surfs (cellf g2 c)) with (lst false (cellf g2 c)). rewrite (Lst2 false). apply (Lt' false). exact Hy.
+      + intros h Hh isc. rewrite B2 in Hh. eapply incl_tran; [apply (L2 x h Hh isc) | apply B3; exact N].
+    - intros x h Hh. rewrite B2 in Hh. apply O2. exact Hh. }
+  destruct (swap_lists g2 c m') as [gx rx] eqn:Es. simpl in *. subst g3.
+  split; [exact V3 | eapply frameG_trans; eauto].
+Qed.
+
+Lemma cells_dedup_inv : forall cs g m, survivors_ok m -> Inv g ->
+  Inv (fst (cells_dedup g cs m)) /\ frameG g (fst (cells_dedup g cs m)).
+Proof.
+  induction cs as [|c cs IH]; intros g m S V; simpl; [split; [exact V | apply frameG_refl]|].
+  destruct (cell_dedup_inv g c m S V) as [V1 F1]. destruct (cell_dedup g c m) as [g1 r]. simpl in *.
+  destruct r; [|split; assumption]. destruct (IH g1 m S V1) as [V2 F2]. split; [exact V2 | eapply frameG_trans; eauto].
+Qed.
+
+Lemma repoint_periodic_core : forall ss g m, same_core g (repoint_periodic g ss m).
+Proof.
+  induction ss as [|s ss IH]; intros g m; simpl; [apply same_core_refl|].
+  eapply same_core_trans; [|apply IH]. destruct (s_per (surff g s)); [|apply same_core_refl].
+  destruct (assoc m o); [repeat split; reflexivity | apply same_core_refl].
+Qed.
+
+Lemma remove_members_same_lk : forall dead g, same_lk g (fst (remove_members g dead)).
+Proof.
+  induction dead as [|d dead IH]; intro g; simpl; [apply same_lk_refl|].
+  unfold remove. destruct (mem_o d (coll g KSurf)); [|apply same_lk_refl].
+  eapply same_lk_trans; [|apply IH]. apply cellf_only_same_lk. reflexivity.
+Qed.
+
+Lemma dedup_inv : forall g m, survivors_ok m -> Inv g -> Inv (fst (dedup g m)).
+Proof.
+  intros g m S V. unfold dedup. destruct (cells_dedup_inv (coll g KCell) g m S V) as [V1 _].
+  destruct (cells_dedup g (coll g KCell) m) as [g1 r]. simpl in V1. destruct r; [|exact V1].
+  eapply Inv_same_lk; [apply remove_members_same_lk|].
+  eapply Inv_same_lk; [apply same_core_lk, repoint_periodic_core | exact V1].
+Qed.
+
+Lemma add_children_to_problem_same_lk : forall g, same_lk g (fst (add_children_to_problem g)).
+Proof.
+  intro g. unfold add_children_to_problem. destruct (orb _ _); [apply same_lk_refl|]. cbv zeta. cbn [fst].
+  eapply same_lk_trans; [|apply cellf_only_same_lk; reflexivity].
+  eapply same_lk_trans; [|apply link_all_same_lk].
+  eapply same_lk_trans; [|apply link_all_same_lk].
+  eapply same_lk_trans; [|apply link_all_same_lk].
+  apply cellf_only_same_lk. reflexivity.
+Qed.
+
+Lemma step_other_same_lk : forall g o,
+  match o with
+  | SetGeom _ _ | IopSet _ _ _ | IopIn _ _ _ _ | IopChild _ _ _ _ _ | SetDiv _ _ _ _ | Dedup _ | Relink => True
+  | _ => same_lk g (fst (step g o))
+  end.
+Proof.
+  intros g o. destruct o; try exact I; cbn [step fst].
+  - apply set_cell_same_lk. repeat split; reflexivity.
+  - apply set_cell_same_lk. repeat split; reflexivity.
+  - apply set_cell_same_lk. repeat split; reflexivity.
+  - apply set_cell_same_lk. repeat split; reflexivity.
+  - apply cellf_only_same_lk. reflexivity.
+  - unfold set_number. destruct (n <=? 0)%Z; [apply same_lk_refl|].
+    destruct (andb _ _); [apply same_lk_refl | apply cellf_only_same_lk; reflexivity].
+  - unfold append. destruct (mem_Z _ _); [apply same_lk_refl|]. simpl.
+    eapply same_lk_trans; [|apply link_if_same_lk]. apply cellf_only_same_lk. reflexivity.
+  - unfold remove. destruct (mem_o _ _); [apply cellf_only_same_lk; reflexivity | apply same_lk_refl].
+  - unfold extend. destruct (clash _ _ _ _); [apply same_lk_refl|]. simpl.
+    eapply same_lk_trans; [|apply link_if_same_lk]. apply cellf_only_same_lk. reflexivity.
+  - unfold extend. destruct (clash _ _ _ _); [apply same_lk_refl|]. simpl.
+    eapply same_lk_trans; [|apply link_if_same_lk]. apply cellf_only_same_lk. reflexivity.
+  - apply add_children_to_problem_same_lk.
+Qed.
+
+Lemma step_inv : forall g o, Inv g -> links_safe g o = true -> Inv (fst (step g o)).
+Proof.
+  intros g o V S. pose proof (step_other_same_lk g o) as K.
+  destruct o; try (eapply Inv_same_lk; [exact K | exact V]); cbn [links_safe step] in *.
+  - apply set_geom_inv. exact V.
+  - apply iop_set_inv. exact V.
+  - apply iop_in_inv. exact V.
+  - apply iop_child_inv. exact V.
+  - apply set_div_inv. exact V.
+  - apply dedup_inv; [apply dedup_map_ok_spec; exact S | exact V].
+  - discriminate.
+Qed.
+
+Lemma run_inv : forall ops g, Inv g -> all_safe links_safe g ops = true -> Inv (run g ops).
+Proof.
+  induction ops as [|o ops IH]; intros g V S; simpl in *; [exact V|].
+  apply andb_true_iff in S. destruct S as [S1 S2]. apply IH; [apply step_inv; assumption | exact S2].
+Qed.
+
+(* a program of API operations: everything but the private pointer resolution *)
+Fixpoint no_relink (ops : list op) : bool :=
+  match ops with
+  | [] => true
+  | Relink :: _ => false
+  | Dedup m :: r => andb (dedup_map_ok m) (no_relink r)
+  | _ :: r => no_relink r
+  end.
+Lemma no_relink_all_safe : forall ops g, no_relink ops = true -> all_safe links_safe g ops = true.
+Proof.
+  induction ops as [|o ops IH]; intros g H; simpl in *; [reflexivity|].
+  destruct o; simpl in *; try (apply IH; exact H); try discriminate.
+  apply andb_true_iff in H. destruct H as [H1 H2]. rewrite H1. simpl. apply IH. exact H2.
+Qed.
+
+Lemma read_then_inv : forall g0 g,
+  Raw g0 -> Linked g0 -> update_pointers g0 = (g, ROk) ->
+  (forall x, ~ In x (coll g0 KCell) ->
+     cell_ok (cellf g0 x) /\ forall h, c_geom (cellf g0 x) = Some h -> owned x h) -> Inv g.
+Proof.
+  intros g0 g R L H NM. split.
+  - eapply read_then_links_all; eauto. intros x Hx. apply (NM x Hx).
+  - destruct (update_pointers_spec g0 g R L H) as (_ & _ & _ & CC & O & W).
+    intros c h Hh. destruct (in_dec Nat.eq_dec c (coll g0 KCell)) as [Hc|Hc].
+    + apply (W c); [rewrite CC; exact Hc | exact Hh].
+    + destruct (O c Hc) as [E1' _]. rewrite E1' in Hh. apply (NM c Hc). exact Hh.
+Qed.
 (* ================================================================ members stay linked; cells stay in a universe *)
+Lemma iop_frameG : forall self g o other g' t' is_self ok,
+  iop g o self other = (g', t', is_self, ok) -> frameG g g'.
+Proof.
+  intros self. induction self as [b d cp|l IHl cp|o' l IHl r IHr cp]; intros g o other g' t' is_self ok H.
+  - simpl in H. inversion H; subst. apply frameG_refl.
+  - simpl in H. inversion H; subst. apply frameG_refl.
+  - destruct (is_leaf r) eqn:Elf.
+    + destruct r as [rb rd rcp|rl rcp|ro rl rr rcp]; try discriminate. rewrite iop_leaf_eq in H.
+      destruct (link_side g cp (Bin o (Leaf rb rd rcp) other None)) as [[g1 side] ok1] eqn:E.
+      apply link_side_spec in E. destruct E as (_ & F & _). destruct ok1; inversion H; subst; exact F.
+    + rewrite iop_bin_eq in H by exact Elf.
+      destruct (iop g o r other) as [[[g1 r'] inner_self] ok0] eqn:E0. pose proof (IHr _ _ _ _ _ _ _ E0) as F0.
+      cbv zeta in H. destruct ok0; [|inversion H; subst; exact F0].
+      destruct (link_side g1 cp r') as [[g2 side] ok2] eqn:E2. apply link_side_spec in E2. destruct E2 as (_ & F2 & _).
+      destruct ok2; [|inversion H; subst; eapply frameG_trans; eauto].
+      destruct (add_children g2 cp other) as [g3 ok3] eqn:E3. apply add_children_spec in E3. destruct E3 as (_ & F3 & _).
+      destruct ok3; inversion H; subst; (eapply frameG_trans; [exact F0|]; eapply frameG_trans; eauto).
+Qed.
+
 Lemma geometry_ops_frameG : forall g o,
   match o with
   | SetGeom _ _ | IopSet _ _ _ | IopIn _ _ _ _ | IopChild _ _ _ _ _ | SetDiv _ _ _ _
@@ -923,26 +1506,27 @@ Proof.
     destruct ok; simpl; [|exact F]. eapply frameG_trans; [exact F | apply set_cell_frameG; reflexivity].
   - unfold iop_set. destruct (fresh_ex e) as [other|]; [|apply frameG_refl].
     destruct (c_geom (cellf g c)) as [t|]; [|apply frameG_refl].
-    destruct (iop o t other) as [[t1 is_self] adds].
-    destruct (add_children_all g adds other) as [g1 b] eqn:E1. apply add_children_all_spec in E1.
-    destruct E1 as (_ & F1 & _). destruct b; simpl.
-    + destruct (link_geometry g1 c t1) as [[g2 t2] ok] eqn:E2. apply link_geometry_spec in E2.
+    destruct (iop g o t other) as [[[g1 t1] is_self] ok] eqn:Ei. pose proof (iop_frameG _ _ _ _ _ _ _ _ Ei) as F1.
+    destruct ok; simpl.
+    + destruct (link_geometry g1 c t1) as [[g2 t2] ok2] eqn:E2. apply link_geometry_spec in E2.
       destruct E2 as (_ & F2 & _). pose proof (frameG_trans _ _ _ F1 F2) as F.
-      destruct ok; simpl; [eapply frameG_trans; [exact F | apply set_cell_frameG; reflexivity]|].
+      destruct ok2; simpl; [eapply frameG_trans; [exact F | apply set_cell_frameG; reflexivity]|].
       destruct is_self; simpl; [eapply frameG_trans; [exact F | apply set_cell_frameG; reflexivity] | exact F].
     + eapply frameG_trans; [exact F1 | apply set_cell_frameG; reflexivity].
   - unfold iop_in. destruct (fresh_ex e) as [other|]; [|apply frameG_refl].
     destruct (c_geom (cellf g c)) as [t|]; [|apply frameG_refl].
     destruct (node_at t p) as [sub|]; [|apply frameG_refl].
-    destruct (iop o sub other) as [[sub1 is_self] adds].
-    destruct (add_children_all g adds other) as [g1 b] eqn:E1. apply add_children_all_spec in E1.
-    destruct E1 as (_ & F1 & _). destruct b; simpl; (eapply frameG_trans; [exact F1 | apply set_cell_frameG; reflexivity]).
+    destruct (iop g o sub other) as [[[g1 sub1] is_self] ok] eqn:Ei. pose proof (iop_frameG _ _ _ _ _ _ _ _ Ei) as F1.
+    simpl. eapply frameG_trans; [exact F1 | apply set_cell_frameG; reflexivity].
   - unfold iop_child. destruct (fresh_ex e) as [other|]; [|apply frameG_refl].
     destruct (c_geom (cellf g c)) as [t|]; [|apply frameG_refl].
+    destruct (node_at t p) as [parent|]; [|apply frameG_refl].
     destruct (node_at t (p ++ [side])) as [sub|]; [|apply frameG_refl].
-    destruct (iop o sub other) as [[sub1 is_self] adds].
-    destruct (add_children_all g adds other) as [g1 b] eqn:E1. apply add_children_all_spec in E1.
-    destruct E1 as (_ & F1 & _). destruct b; simpl; (eapply frameG_trans; [exact F1 | apply set_cell_frameG; reflexivity]).
+    destruct (iop g o sub other) as [[[g1 sub1] is_self] ok] eqn:Ei. pose proof (iop_frameG _ _ _ _ _ _ _ _ Ei) as F1.
+    destruct ok; simpl; [|eapply frameG_trans; [exact F1 | apply set_cell_frameG; reflexivity]].
+    destruct (link_side g1 (get_cp parent) sub1) as [[g2 sub2] ok2] eqn:E2. apply link_side_spec in E2.
+    destruct E2 as (_ & F2 & _).
+    destruct ok2; simpl; (eapply frameG_trans; [exact F1|]; eapply frameG_trans; [exact F2 | apply set_cell_frameG; reflexivity]).
   - unfold set_div. destruct (c_geom (cellf g c)) as [t|]; [|apply frameG_refl].
     destruct (node_at t p) as [[b dv cp|l cp|o l r cp]|]; try apply frameG_refl.
     destruct (negb (Bool.eqb b isc)); [apply frameG_refl|].
@@ -957,6 +1541,38 @@ Proof.
     destruct (andb _ _); [apply frameG_refl | repeat split; auto].
 Qed.
 
+(* ---- frames of remove_duplicate_surfaces (no hypothesis) *)
+Lemma hs_dedup_frameG : forall h g m g' h' ok, hs_dedup g m h = (g', h', ok) -> frameG g g'.
+Proof.
+  intros h. induction h as [isc d cp|l IHl cp|o l IHl r IHr cp]; intros g m g' h' ok H; simpl in H.
+  - destruct isc; [inversion H; subst; apply frameG_refl|].
+    destruct d as [z|ob]; [inversion H; subst; apply frameG_refl|].
+    destruct (assoc m ob) as [k|]; [|inversion H; subst; apply frameG_refl].
+    destruct cp as [c|]; [|inversion H; subst; apply frameG_refl].
+    destruct (cell_add g c false k) as [g1 b] eqn:E. apply cell_add_spec in E. destruct E as (_ & F & _).
+    inversion H; subst. exact F.
+  - destruct (hs_dedup g m l) as [[g1 l'] ok1] eqn:E. inversion H; subst. eapply IHl; exact E.
+  - destruct (hs_dedup g m l) as [[g1 l'] ok1] eqn:E1. pose proof (IHl _ _ _ _ _ E1) as F1. destruct ok1.
+    + destruct (hs_dedup g1 m r) as [[g2 r'] ok2] eqn:E2. pose proof (IHr _ _ _ _ _ E2) as F2.
+      inversion H; subst. eapply frameG_trans; eauto.
+    + inversion H; subst. exact F1.
+Qed.
+Lemma cell_dedup_frameG : forall g c m, frameG g (fst (cell_dedup g c m)).
+Proof.
+  intros g c m. unfold cell_dedup. destruct (filter _ m) as [|p0 mr] eqn:Em; [apply frameG_refl|]. rewrite <- Em. clear Em.
+  destruct (c_geom (cellf g c)) as [t|]; [|apply frameG_refl].
+  destruct (hs_dedup g _ t) as [[g1 t'] ok] eqn:E. pose proof (hs_dedup_frameG _ _ _ _ _ _ E) as F.
+  assert (F2 : frameG g (set_cell g1 c (cr_geom (cellf g1 c) (Some t'))))
+    by (eapply frameG_trans; [exact F | apply set_cell_frameG; reflexivity]).
+  destruct ok; [|exact F2]. eapply frameG_trans; [exact F2|]. apply swap_lists_spec.
+Qed.
+Lemma cells_dedup_frameG : forall cs g m, frameG g (fst (cells_dedup g cs m)).
+Proof.
+  induction cs as [|c cs IH]; intros g m; simpl; [apply frameG_refl|].
+  pose proof (cell_dedup_frameG g c m) as F1. destruct (cell_dedup g c m) as [g1 r]. simpl in F1.
+  destruct r; [eapply frameG_trans; [exact F1 | apply IH] | exact F1].
+Qed.
+
 Lemma coll_set_coll : forall g k l k', coll (set_coll g k l) k' = if kind_eqb k' k then l else coll g k'.
 Proof. reflexivity. Qed.
 
@@ -966,18 +1582,6 @@ Proof.
   intros g k l [L1 L2] H. split; [|exact L2]. intros k' o Ho. rewrite coll_set_coll in Ho.
   change (plink (set_coll g k l) k' o) with (plink g k' o).
   destruct (kind_eqb k' k) eqn:E; [apply kind_eqb_eq in E; subst; apply H; exact Ho | apply L1; exact Ho].
-Qed.
-
-Lemma remove_first_incl : forall o l, incl (remove_first o l) l.
-Proof.
-  intros o l. induction l as [|x l IH]; simpl; [apply incl_refl|].
-  destruct (Nat.eqb x o); [apply incl_tl, incl_refl|]. intros y [<-|Hy]; [left; reflexivity | right; apply IH; exact Hy].
-Qed.
-Lemma remove_first_other : forall o l x, x <> o -> In x l -> In x (remove_first o l).
-Proof.
-  intros o l x N. induction l as [|y l IH]; simpl; [auto|]. intros [<-|H].
-  - destruct (Nat.eqb y o) eqn:E; [apply Nat.eqb_eq in E; contradiction | left; reflexivity].
-  - destruct (Nat.eqb y o); [exact H | right; apply IH; exact H].
 Qed.
 
 Lemma extend_linked : forall g k l, Linked g -> Linked (link_if (set_coll g k (coll g k ++ l)) k l).
@@ -996,6 +1600,43 @@ Qed.
 Lemma Linked_set_cell : forall g c r, Linked g -> Linked (set_cell g c r).
 Proof. intros g c r L. exact L. Qed.
 
+Lemma add_children_linked : forall g, Linked g -> Linked (fst (add_children_to_problem g)).
+Proof.
+  intros g [L1 L2]. unfold add_children_to_problem. destruct (orb _ _); [split; assumption|]. cbv zeta. cbn [fst].
+  set (ss := sort_by (num g KSurf) (nodup_o (coll g KSurf ++ used_surfs g) [])).
+  set (ms := sort_by (num g KMat) (nodup_o (coll g KMat ++ used_mats g) [])).
+  set (ts := sort_by (num g KTr) (nodup_o (coll g KTr ++ used_trs g) [])).
+  set (g2 := set_clinked (set_clinked (set_clinked (set_coll (set_coll (set_coll g KSurf ss) KMat ms) KTr ts)
+                                                    KSurf true) KMat true) KTr true).
+  destruct (link_all_spec ss g2 KSurf) as (A1 & A2 & A3 & A4 & _).
+  destruct (link_all_spec ms (link_all g2 KSurf ss) KMat) as (B1 & B2 & B3 & B4 & _).
+  destruct (link_all_spec ts (link_all (link_all g2 KSurf ss) KMat ms) KTr) as (C1 & C2 & C3 & C4 & _).
+  split.
+  - intros k o Ho. cbn [set_dins coll plink] in *. rewrite C1, B1, A1 in Ho.
+    destruct k; cbn in Ho.
+    + apply C3, B3, A3. apply L1. exact Ho.
+    + apply C3, B3. apply A4. exact Ho.
+    + apply C3. apply B4. exact Ho.
+    + apply C4. exact Ho.
+    + apply C3, B3, A3. apply L1. exact Ho.
+  - intro k. cbn [set_dins clinked]. rewrite C2, B2, A2. destruct k; cbn; try reflexivity; apply L2.
+Qed.
+
+Lemma remove_members_linked : forall dead g, Linked g -> Linked (fst (remove_members g dead)).
+Proof.
+  induction dead as [|d dead IH]; intros g L; simpl; [exact L|].
+  unfold remove. destruct (mem_o d (coll g KSurf)); [|exact L]. apply IH.
+  apply Linked_set_coll; [exact L|]. intros x Hx. destruct L as [L1 _]. apply L1. apply (remove_first_incl d). exact Hx.
+Qed.
+
+Lemma dedup_linked : forall g m, Linked g -> Linked (fst (dedup g m)).
+Proof.
+  intros g m L. unfold dedup. pose proof (cells_dedup_frameG (coll g KCell) g m) as F.
+  destruct (cells_dedup g (coll g KCell) m) as [g1 r]. simpl in F. pose proof (Linked_frameG _ _ F L) as L1.
+  destruct r; [|exact L1]. apply remove_members_linked.
+  eapply Linked_frameG; [apply same_core_frameG, repoint_periodic_core | exact L1].
+Qed.
+
 Lemma step_linked : forall g o, Linked g -> linked_safe g o = true -> Linked (fst (step g o)).
 Proof.
   intros g o L S. pose proof (geometry_ops_frameG g o) as K.
@@ -1007,6 +1648,8 @@ Proof.
     apply (remove_first_incl o). exact Hx.
   - unfold extend. destruct (clash _ _ _ _); [exact L|]. apply extend_linked. exact L.
   - unfold extend. destruct (clash _ _ _ _); [exact L|]. apply extend_linked. exact L.
+  - apply add_children_linked. exact L.
+  - apply dedup_linked. exact L.
 Qed.
 
 Lemma run_linked : forall ops g, Linked g -> all_safe linked_safe g ops = true -> Linked (run g ops).
@@ -1052,11 +1695,38 @@ Qed.
 
 Lemma add_children_to_problem_frameU : forall g,
   let g' := fst (add_children_to_problem g) in
-  (forall c, cellf g' c = cellf g c) /\ coll g' KCell = coll g KCell /\ coll g' KUniv = coll g KUniv /\
-  (forall k o, plink g' k o = plink g k o).
+  (forall c, c_univ (cellf g' c) = c_univ (cellf g c)) /\ (coll g' KCell = coll g KCell) /\ (coll g' KUniv = coll g KUniv) /\
+  (forall k o, plink g k o = true -> plink g' k o = true).
 Proof.
-  intro g. unfold add_children_to_problem.
-  repeat match goal with |- context [if ?b then _ else _] => destruct b end; repeat split; reflexivity.
+  intro g. unfold add_children_to_problem. destruct (orb _ _); [repeat split; auto|]. cbv zeta. cbn [fst].
+  set (ss := sort_by (num g KSurf) (nodup_o (coll g KSurf ++ used_surfs g) [])).
+  set (ms := sort_by (num g KMat) (nodup_o (coll g KMat ++ used_mats g) [])).
+  set (ts := sort_by (num g KTr) (nodup_o (coll g KTr ++ used_trs g) [])).
+  set (g2 := set_clinked (set_clinked (set_clinked (set_coll (set_coll (set_coll g KSurf ss) KMat ms) KTr ts)
+                                                    KSurf true) KMat true) KTr true).
+  destruct (link_all_spec ss g2 KSurf) as (A1 & A2 & A3 & A4 & A5).
+  destruct (link_all_spec ms (link_all g2 KSurf ss) KMat) as (B1 & B2 & B3 & B4 & B5).
+  destruct (link_all_spec ts (link_all (link_all g2 KSurf ss) KMat ms) KTr) as (C1 & C2 & C3 & C4 & C5).
+  cbn [set_dins coll plink cellf]. split; [|split; [|split]].
+  - intro c. rewrite C5, B5, A5. reflexivity.
+  - rewrite C1, B1, A1. reflexivity.
+  - rewrite C1, B1, A1. reflexivity.
+  - intros k o H. apply C3, B3, A3. exact H.
+Qed.
+
+Lemma remove_members_univ : forall dead g, UnivOK g -> UnivOK (fst (remove_members g dead)).
+Proof.
+  induction dead as [|d dead IH]; intros g U; simpl; [exact U|].
+  unfold remove. destruct (mem_o d (coll g KSurf)); [|exact U]. apply IH.
+  intros c Hc. destruct (U c Hc) as [u (E & M & P)]. exists u. auto.
+Qed.
+
+Lemma dedup_univ : forall g m, UnivOK g -> UnivOK (fst (dedup g m)).
+Proof.
+  intros g m U. unfold dedup. pose proof (cells_dedup_frameG (coll g KCell) g m) as F.
+  destruct (cells_dedup g (coll g KCell) m) as [g1 r]. simpl in F. pose proof (UnivOK_frameG _ _ F U) as U1.
+  destruct r; [|exact U1]. apply remove_members_univ.
+  eapply UnivOK_frameG; [apply same_core_frameG, repoint_periodic_core | exact U1].
 Qed.
 
 Lemma step_univ : forall g o, UnivOK g -> univ_safe g o = true -> UnivOK (fst (step g o)).
@@ -1085,7 +1755,8 @@ Proof.
   - (* Iadd *) unfold extend. destruct (clash _ _ _ _); [exact U|]. apply UnivOK_extend; [exact U|].
     intros -> x Hx. cbn [univ_safe] in S. apply in_member_universe_spec. rewrite forallb_forall in S. apply S. exact Hx.
   - (* AddChildren *) destruct (add_children_to_problem_frameU g) as (A & B & C & D).
-    intros c Hc. rewrite B in Hc. destruct (U c Hc) as [u (E & M & P)]. exists u. rewrite A, C, D. auto.
+    intros c Hc. rewrite B in Hc. destruct (U c Hc) as [u (E & M & P)]. exists u. rewrite A, C. auto.
+  - (* Dedup *) apply dedup_univ. exact U.
 Qed.
 
 Lemma run_univ : forall ops g, UnivOK g -> all_safe univ_safe g ops = true -> UnivOK (run g ops).
@@ -1218,25 +1889,69 @@ Proof.
   intros g l x. induction l as [|y l IH]; simpl; [tauto|]. rewrite dinsert_In, IH. intuition.
 Qed.
 
-Theorem children_spec : forall g g' r,
-  add_children_to_problem g = (g', r) -> r <> RErr NumberConflict ->
-  (incl (used_surfs g') (coll g' KSurf) /\ incl (used_mats g') (coll g' KMat) /\ incl (used_trs g') (coll g' KTr)) /\
-  (r = ROk -> (forall m, In m (coll g' KMat) -> In (DMat m) (dins g')) /\
-              (forall t, In t (coll g' KTr) -> In (DTr t) (dins g'))).
+Lemma link_all_noncell : forall l g k, k <> KCell ->
+  (forall c, cellf (link_all g k l) c = cellf g c) /\ (forall x, surff (link_all g k l) x = surff g x) /\
+  dins (link_all g k l) = dins g.
 Proof.
-  intros g g' r H NC. unfold add_children_to_problem in H.
-  destruct (has_dup (map (num g KSurf) _)); [inversion H; subst; contradiction|].
-  destruct (has_dup (map (num g KMat) _)); [inversion H; subst; contradiction|].
-  destruct (has_dup (map (num g KTr) _)); [inversion H; subst; contradiction|].
-  match type of H with (if dcrash ?x then _ else _) = _ => destruct (dcrash x) end; inversion H; subst; clear H.
-  - split; [|discriminate]. repeat split; intros x Hx; apply sorted_nodup_In; apply in_or_app; right; exact Hx.
-  - split.
-    + repeat split; intros x Hx; apply sorted_nodup_In; apply in_or_app; right; exact Hx.
-    + intros _. split; intros x Hx; apply dsort_In.
-      * match goal with |- In ?d (dnodup ?l []) => destruct (dnodup_In l [] d) as [K|K]; [|discriminate K|exact K] end.
-        apply in_or_app. right. apply in_or_app. left. apply in_map. exact Hx.
-      * match goal with |- In ?d (dnodup ?l []) => destruct (dnodup_In l [] d) as [K|K]; [|discriminate K|exact K] end.
-        apply in_or_app. right. apply in_or_app. right. apply in_map. exact Hx.
+  induction l as [|o l IH]; intros g k N; simpl; [repeat split; reflexivity|].
+  destruct (IH (link_obj g k o) k N) as (A & B & C).
+  assert (E : link_obj g k o = set_plink g k o) by (destruct k; try reflexivity; contradiction).
+  rewrite E in *. split; [|split].
+  - intro c. rewrite A. reflexivity.
+  - intro x. rewrite B. reflexivity.
+  - rewrite C. reflexivity.
+Qed.
+
+Theorem children_spec : forall g g' r,
+  add_children_to_problem g = (g', r) ->
+  (r = RErr NumberConflict /\ g' = g) \/
+  (r = ROk /\
+   incl (used_surfs g') (coll g' KSurf) /\ incl (used_mats g') (coll g' KMat) /\ incl (used_trs g') (coll g' KTr) /\
+   (forall m, In m (coll g' KMat) -> In (DMat m) (dins g')) /\
+   (forall t, In t (coll g' KTr) -> In (DTr t) (dins g')) /\
+   (forall s, In s (coll g' KSurf) -> plink g' KSurf s = true) /\
+   (forall m, In m (coll g' KMat) -> plink g' KMat m = true) /\
+   (forall t, In t (coll g' KTr) -> plink g' KTr t = true)).
+Proof.
+  intros g g' r H. unfold add_children_to_problem in H. destruct (orb _ _); [left; inversion H; auto|].
+  right. cbv zeta in H.
+  set (ss := sort_by (num g KSurf) (nodup_o (coll g KSurf ++ used_surfs g) [])) in *.
+  set (ms := sort_by (num g KMat) (nodup_o (coll g KMat ++ used_mats g) [])) in *.
+  set (ts := sort_by (num g KTr) (nodup_o (coll g KTr ++ used_trs g) [])) in *.
+  set (g2 := set_clinked (set_clinked (set_clinked (set_coll (set_coll (set_coll g KSurf ss) KMat ms) KTr ts)
+                                                    KSurf true) KMat true) KTr true) in *.
+  set (gA := link_all g2 KSurf ss) in *. set (gB := link_all gA KMat ms) in *. set (gC := link_all gB KTr ts) in *.
+  destruct (link_all_spec ss g2 KSurf) as (A1 & A2 & A3 & A4 & _). fold gA in A1, A2, A3, A4.
+  destruct (link_all_spec ms gA KMat) as (B1 & B2 & B3 & B4 & _). fold gB in B1, B2, B3, B4.
+  destruct (link_all_spec ts gB KTr) as (C1 & C2 & C3 & C4 & _). fold gC in C1, C2, C3, C4.
+  destruct (link_all_noncell ss g2 KSurf ltac:(discriminate)) as (NA1 & NA2 & NA3). fold gA in NA1, NA2, NA3.
+  destruct (link_all_noncell ms gA KMat ltac:(discriminate)) as (NB1 & NB2 & NB3). fold gB in NB1, NB2, NB3.
+  destruct (link_all_noncell ts gB KTr ltac:(discriminate)) as (NC1 & NC2 & NC3). fold gC in NC1, NC2, NC3.
+  inversion H; subst; clear H. split; [reflexivity|].
+  assert (Ecell : forall c, cellf gC c = cellf g c) by (intro c; rewrite NC1, NB1, NA1; reflexivity).
+  assert (Esurf : forall x, surff gC x = surff g x) by (intro x; rewrite NC2, NB2, NA2; reflexivity).
+  assert (Ck : forall k, coll gC k = coll g2 k) by (intro k; rewrite C1, B1, A1; reflexivity).
+  assert (Us : used_surfs (set_dins gC (dsort gC (dnodup (dins gC ++ map DMat ms ++ map DTr ts) []))) = used_surfs g).
+  { unfold used_surfs, member_cells. cbn [set_dins coll cellf]. rewrite Ck. cbn [g2 set_clinked set_coll coll]. simpl.
+    f_equal. apply map_ext. exact Ecell. }
+  assert (Um : used_mats (set_dins gC (dsort gC (dnodup (dins gC ++ map DMat ms ++ map DTr ts) []))) = used_mats g).
+  { unfold used_mats, member_cells. cbn [set_dins coll cellf]. rewrite Ck. simpl. f_equal. apply map_ext. exact Ecell. }
+  assert (Ut : used_trs (set_dins gC (dsort gC (dnodup (dins gC ++ map DMat ms ++ map DTr ts) []))) = used_trs g).
+  { unfold used_trs. rewrite Us. cbn [set_dins surff]. apply flat_map_ext. intro x. rewrite Esurf. reflexivity. }
+  cbn [set_dins coll dins plink]. rewrite !Ck. cbn [g2 set_clinked set_coll coll]. simpl.
+  split; [|split; [|split; [|split; [|split; [|split; [|split]]]]]].
+  - rewrite Us. intros x Hx. apply sorted_nodup_In. apply in_or_app. right. exact Hx.
+  - rewrite Um. intros x Hx. apply sorted_nodup_In. apply in_or_app. right. exact Hx.
+  - rewrite Ut. intros x Hx. apply sorted_nodup_In. apply in_or_app. right. exact Hx.
+  - intros x Hx. apply dsort_In.
+    match goal with |- In ?d (dnodup ?l []) => destruct (dnodup_In l [] d) as [K|K]; [|discriminate K|exact K] end.
+    apply in_or_app. right. apply in_or_app. left. apply in_map. exact Hx.
+  - intros x Hx. apply dsort_In.
+    match goal with |- In ?d (dnodup ?l []) => destruct (dnodup_In l [] d) as [K|K]; [|discriminate K|exact K] end.
+    apply in_or_app. right. apply in_or_app. right. apply in_map. exact Hx.
+  - intros x Hx. apply C3, B3. apply A4. exact Hx.
+  - intros x Hx. apply C3. apply B4. exact Hx.
+  - intros x Hx. apply C4. exact Hx.
 Qed.
 
 (* ================================================================ decidable versions, used for the witnesses *)
@@ -1296,56 +2011,17 @@ Proof.
   auto.
 Qed.
 
+Lemma wit_Inv : Inv wit.
+Proof.
+  apply (read_then_inv wit_raw wit wit_raw_Raw wit_raw_Linked wit_read_ok).
+  intros x Hx. destruct x as [|[|x]].
+  - exfalso. apply Hx. simpl. auto.
+  - exfalso. apply Hx. simpl. auto.
+  - split; [intros h Hh; discriminate | intros h Hh; discriminate].
+Qed.
 Lemma wit_LinksAll : LinksAll wit.
-Proof.
-  intro c. destruct c as [|[|c]].
-  - apply cell_okb_spec. vm_compute. reflexivity.
-  - apply cell_okb_spec. vm_compute. reflexivity.
-  - apply cell_okb_spec. vm_compute. reflexivity.
-Qed.
+Proof. apply wit_Inv. Qed.
 
-Lemma not_Links : forall g c, In c (coll g KCell) -> cell_okb (cellf g c) = false -> ~ Links g.
-Proof. intros g c Hc H L. apply (cell_okb_false _ H). apply L. exact Hc. Qed.
-
-(* remove_duplicate_surfaces (even with nothing to merge) empties the lists *)
-Lemma dedup_breaks_links : Links wit /\ LinksAll wit /\ ~ Links (run wit [Dedup []]).
-Proof.
-  split; [intros c _; apply wit_LinksAll|]. split; [apply wit_LinksAll|].
-  apply (not_Links _ 0%nat); [vm_compute; auto | vm_compute; reflexivity].
-Qed.
-(* ... and a reassigned material goes back to the material with the number that was read *)
-Lemma dedup_reverts_material :
-  c_mat (cellf (run wit [SetMat 0%nat (Some 1%nat)]) 0%nat) = Some 1%nat /\
-  c_mat (cellf (run wit [SetMat 0%nat (Some 1%nat); Dedup []]) 0%nat) = Some 0%nat.
-Proof. split; vm_compute; reflexivity. Qed.
-(* g = cell.geometry; g &= +s3  on a node whose right side is a leaf *)
-Lemma inplace_breaks_links :
-  snd (step wit (IopIn 0%nat [] OAnd (ESurf 2%nat))) = ROk /\ ~ Links (run wit [IopIn 0%nat [] OAnd (ESurf 2%nat)]).
-Proof.
-  split; [vm_compute; reflexivity|].
-  apply (not_Links _ 0%nat); [vm_compute; auto | vm_compute; reflexivity].
-Qed.
-(* cell.geometry = +s1 & +s2; cell.geometry.left.divider = s3 : inner nodes of an assigned tree
-   are not linked to the cell *)
-Definition wit_div_ops : list op :=
-  [SetGeom 0%nat (EAnd (ESurf 0%nat) (ESurf 1%nat)); SetDiv 0%nat [false] false 2%nat].
-Lemma divider_breaks_links :
-  snd (step wit (SetGeom 0%nat (EAnd (ESurf 0%nat) (ESurf 1%nat)))) = ROk /\
-  snd (step (run wit [SetGeom 0%nat (EAnd (ESurf 0%nat) (ESurf 1%nat))]) (SetDiv 0%nat [false] false 2%nat)) = ROk /\
-  ~ Links (run wit wit_div_ops).
-Proof.
-  split; [vm_compute; reflexivity|]. split; [vm_compute; reflexivity|].
-  apply (not_Links _ 0%nat); [vm_compute; auto | vm_compute; reflexivity].
-Qed.
-(* add_cell_children_to_problem makes a used surface a member without linking it *)
-Lemma children_breaks_linked :
-  let g := run wit [SetGeom 0%nat (ESurf 5%nat); AddChildren] in
-  In 5%nat (coll g KSurf) /\ plink g KSurf 5%nat = false /\ ~ Linked g.
-Proof.
-  cbv zeta. assert (A : In 5%nat (coll (run wit [SetGeom 0%nat (ESurf 5%nat); AddChildren]) KSurf)) by (vm_compute; auto).
-  assert (B : plink (run wit [SetGeom 0%nat (ESurf 5%nat); AddChildren]) KSurf 5%nat = false) by (vm_compute; reflexivity).
-  split; [exact A|]. split; [exact B|]. intros [L _]. rewrite (L _ _ A) in B. discriminate.
-Qed.
 (* a new Cell() appended to problem.cells is in no universe *)
 Lemma append_breaks_univ :
   snd (step wit (Append KCell 7%nat)) = ROk /\ ~ UnivOK (run wit [Append KCell 7%nat]).
@@ -1355,16 +2031,29 @@ Proof.
   destruct (U _ A) as [u (E & _)]. vm_compute in E. discriminate.
 Qed.
 
-(* a program of safe operations on the witness (hypotheses of the partial theorems are satisfiable) *)
+(* a program that uses every kind of operation, among them the ones that used to break the links:
+   an in-place operator on a node whose right side is a leaf, a divider replaced on a leaf of an
+   assigned tree, add_cell_children_to_problem, remove_duplicate_surfaces with a real merge *)
 Definition wit_safe_ops : list op :=
   [SetGeom 0%nat (EOr EOld (ESurf 2%nat)); IopSet 1%nat OAnd (ENot (ESurf 5%nat)); SetDiv 1%nat [false] false 1%nat;
-   IopIn 1%nat [] OOr (ECell 0%nat); SetMat 1%nat (Some 1%nat); SetNum KSurf 0%nat 9; Remove KSurf 2%nat;
-   Append KSurf 5%nat].
+   IopIn 1%nat [] OOr (ECell 0%nat); IopIn 0%nat [false] OAnd (ESurf 6%nat);
+   SetGeom 0%nat (EAnd (ESurf 0%nat) (ESurf 1%nat)); SetDiv 0%nat [false] false 2%nat;
+   IopChild 0%nat [] true OOr (ESurf 0%nat);
+   SetMat 1%nat (Some 1%nat); SetNum KSurf 0%nat 9; AddChildren; Dedup [(2%nat, 0%nat)]; Append KSurf 7%nat].
 Lemma wit_safe_ops_safe :
+  no_relink wit_safe_ops = true /\
   all_safe links_safe wit wit_safe_ops = true /\ all_safe linked_safe wit wit_safe_ops = true /\
   all_safe univ_safe wit wit_safe_ops = true.
 Proof. repeat split; vm_compute; reflexivity. Qed.
-
+(* ... and it is not a sequence of refused operations: the lists did change *)
+Lemma wit_safe_ops_effect :
+  c_surfs (cellf wit 0%nat) = [0%nat; 1%nat] /\
+  c_surfs (cellf (run wit wit_safe_ops) 0%nat) <> c_surfs (cellf wit 0%nat) /\
+  In 5%nat (coll (run wit wit_safe_ops) KSurf) /\ ~ In 2%nat (coll (run wit wit_safe_ops) KSurf).
+Proof.
+  split; [vm_compute; reflexivity|]. split; [vm_compute; discriminate|]. split; [vm_compute; auto 10|].
+  vm_compute. intuition discriminate.
+Qed.
 (* ================================================================ C04: written references follow renumbering *)
 Definition retarget (numf : kind -> oid -> Z) (w : src * slot * kind * oid) : src * slot * kind * Z :=
   let '(s, sl, k, o) := w in (s, sl, k, numf k o).
@@ -1680,13 +2369,6 @@ Proof.
 Qed.
 
 (* ================================================================ a refused geometry / divider changes nothing *)
-Lemma add_children_refused : forall g cp other g', add_children g cp other = (g', false) -> g' = g.
-Proof.
-  intros g cp other g' H. unfold add_children in H. destruct cp as [c|]; [|discriminate].
-  destruct (cell_new g c true (leaves_cell other)); [|inversion H; reflexivity].
-  destruct (cell_new g c false (leaves_surf other)); [discriminate | inversion H; reflexivity].
-Qed.
-
 Lemma set_geom_conflict_atomic : forall g c e g', set_geom g c e = (g', RErr NumberConflict) -> g' = g.
 Proof.
   intros g c e g' H. unfold set_geom in H. destruct (Nat.ltb 1 (uses_old e)); [discriminate|].
